@@ -172,6 +172,18 @@ package eval
 //@ func tryFoldUnary
 //@   inline
 
+// known(v): no unknown (variable or ignore marker) occurs in v at any depth.
+//@ spec func known(v types.Value) bool
+//@ axiom known_scalar: forall v types.Value :: { known(v) } ((v is types.Boolean) || (v is types.Long) || (v is types.String) || (v is types.Decimal) || (v is types.Datetime) || (v is types.Duration) || (v is types.IPAddr)) ==> known(v)
+//@ axiom known_entity: forall v types.Value :: { known(v) } (v is types.EntityUID) ==> (known(v) == (!isVar(v) && !isIgn(v)))
+//@ axiom known_attr: forall r types.Record, k types.String :: { recGet(r, k) } (known(types.Value(r)) && recHas(r, k)) ==> known(recGet(r, k))
+//@ spec func storeKnown(env Env) bool = forall u types.EntityUID :: { entOf(env, u) } (known(types.Value(entOf(env, u).Attributes)) && known(types.Value(entOf(env, u).Tags)))
+
+// allLitUpTo(env, ns, k): the first k nodes of ns all partially evaluate to literals
+// (defined by its two unfolding equations, so that no quantifier has to be instantiated).
+//@ spec func allLitUpTo(env Env, ns []ast.IsNode, k int) bool
+//@ axiom all_lit_base: forall env Env, ns []ast.IsNode :: { allLitUpTo(env, ns, 0) } allLitUpTo(env, ns, 0)
+//@ axiom all_lit_step: forall env Env, ns []ast.IsNode, k int :: { allLitUpTo(env, ns, k) } k >= 1 ==> (allLitUpTo(env, ns, k) == (allLitUpTo(env, ns, k - 1) && isLitP(env, ns[k - 1])))
 // tryPartial mirrors tryFold; errors of the children are propagated in order.
 //@ func tryPartial
 //@   inline
@@ -179,12 +191,66 @@ package eval
 //@     invariant len(nodes) == len(old(nodes))
 //@     invariant forall j int :: (0 <= j && j < $i) ==> (nodes[j] == keptNode(env, old(nodes)[j]) && !hardErr(pE(env, old(nodes)[j])))
 //@     invariant forall j int :: ($i <= j && j < len(nodes)) ==> nodes[j] == old(nodes)[j]
-//@     invariant ok == (forall j int :: (0 <= j && j < $i) ==> isLitP(env, old(nodes)[j]))
+//@     invariant 0 <= $i && ok == allLitUpTo(env, old(nodes), $i)
 //@     invariant ok ==> (len(values) == $i && (forall j int :: (0 <= j && j < $i) ==> values[j] == pN(env, old(nodes)[j]).(ast.NodeValue).Value))
 //@ func tryPartialBinary
 //@   inline
 //@ func tryPartialUnary
 //@   inline
+
+// Short-circuit operators: the left operand decides when it is a literal; an
+// unknown or non-literal left operand keeps the node, with a failing right
+// operand embedded as an error node (it fails only if it is reached).
+//@ func extError
+//@   pure
+//@   trusted
+//@ spec func isNonBoolLit(x ast.IsNode) bool = (x is ast.NodeValue) && !(x.(ast.NodeValue).Value is types.Boolean)
+//@ spec func isBoolLit(x ast.IsNode, b bool) bool = (x is ast.NodeValue) && (x.(ast.NodeValue).Value is types.Boolean) && x.(ast.NodeValue).Value.(types.Boolean) == types.Boolean(b)
+//@ spec func boolNode(b bool) ast.IsNode = ast.IsNode(mkstruct(ast.NodeValue, types.Value(types.Boolean(b))))
+//@ spec func rightOperand(env Env, c ast.IsNode) ast.IsNode = (hardErr(pE(env, c)) && !errIs(pE(env, c), errIgnore)) ? ast.IsNode(extError#0(pE(env, c))) : pN(env, c)
+//@ func isNonBoolValue
+//@   pure
+//@   results r
+//@   ensures r == isNonBoolLit(in)
+//@ func isTrue
+//@   pure
+//@   results r
+//@   ensures r == isBoolLit(in, true)
+//@ func isFalse
+//@   pure
+//@   results r
+//@   ensures r == isBoolLit(in, false)
+//@ func partialAnd
+//@   props C06
+//@   pure
+//@   calldepth 8
+//@   dispatch Evaler.Eval@errorEval
+//@   results r, err
+//@   ensures left_error: hardErr(pE(env, v.Left)) ==> err == pE(env, v.Left)
+//@   ensures left_type: (pE(env, v.Left) == nil && isNonBoolLit(pN(env, v.Left))) ==> (err != nil && errIs(err, ErrType))
+//@   ensures left_false: (pE(env, v.Left) == nil && isBoolLit(pN(env, v.Left), false)) ==> (err == nil && r == boolNode(false))
+//@   ensures left_true: (pE(env, v.Left) == nil && isBoolLit(pN(env, v.Left), true)) ==> (hardErr(pE(env, v.Right)) ? (err == pE(env, v.Right)) : (isLitP(env, v.Right) ? pOutcome(r, err, ast.IsNode(mkstruct(ast.NodeTypeAnd, mkstruct(ast.BinaryNode, boolNode(true), keptNode(env, v.Right)))), ToEval#0(ast.IsNode(mkstruct(ast.NodeTypeAnd, mkstruct(ast.BinaryNode, boolNode(true), pN(env, v.Right))))), env) : (err == nil && r == ast.IsNode(mkstruct(ast.NodeTypeAnd, mkstruct(ast.BinaryNode, boolNode(true), keptNode(env, v.Right)))))))
+//@   ensures open: ((errIs(pE(env, v.Left), errVariable)) || (pE(env, v.Left) == nil && !(pN(env, v.Left) is ast.NodeValue))) ==> (errIs(pE(env, v.Right), errIgnore) ? (err == pE(env, v.Right)) : (err == nil && r == ast.IsNode(mkstruct(ast.NodeTypeAnd, mkstruct(ast.BinaryNode, pN(env, v.Left), rightOperand(env, v.Right))))))
+//@ func partialOr
+//@   props C06
+//@   pure
+//@   calldepth 8
+//@   dispatch Evaler.Eval@errorEval
+//@   results r, err
+//@   ensures left_error: hardErr(pE(env, v.Left)) ==> err == pE(env, v.Left)
+//@   ensures left_type: (pE(env, v.Left) == nil && isNonBoolLit(pN(env, v.Left))) ==> (err != nil && errIs(err, ErrType))
+//@   ensures left_true: (pE(env, v.Left) == nil && isBoolLit(pN(env, v.Left), true)) ==> (err == nil && r == boolNode(true))
+//@   ensures left_false: (pE(env, v.Left) == nil && isBoolLit(pN(env, v.Left), false)) ==> (hardErr(pE(env, v.Right)) ? (err == pE(env, v.Right)) : (isLitP(env, v.Right) ? pOutcome(r, err, ast.IsNode(mkstruct(ast.NodeTypeOr, mkstruct(ast.BinaryNode, boolNode(false), keptNode(env, v.Right)))), ToEval#0(ast.IsNode(mkstruct(ast.NodeTypeOr, mkstruct(ast.BinaryNode, boolNode(false), pN(env, v.Right))))), env) : (err == nil && r == ast.IsNode(mkstruct(ast.NodeTypeOr, mkstruct(ast.BinaryNode, boolNode(false), keptNode(env, v.Right)))))))
+//@   ensures open: ((errIs(pE(env, v.Left), errVariable)) || (pE(env, v.Left) == nil && !(pN(env, v.Left) is ast.NodeValue))) ==> (errIs(pE(env, v.Right), errIgnore) ? (err == pE(env, v.Right)) : (err == nil && r == ast.IsNode(mkstruct(ast.NodeTypeOr, mkstruct(ast.BinaryNode, pN(env, v.Left), rightOperand(env, v.Right))))))
+//@ func partialIfThenElse
+//@   props C06
+//@   pure
+//@   results r, err
+//@   ensures cond_error: hardErr(pE(env, v.If)) ==> err == pE(env, v.If)
+//@   ensures cond_type: (pE(env, v.If) == nil && isNonBoolLit(pN(env, v.If))) ==> (err != nil && errIs(err, ErrType))
+//@   ensures cond_true: (pE(env, v.If) == nil && isBoolLit(pN(env, v.If), true)) ==> (r == pN(env, v.Then) && err == pE(env, v.Then))
+//@   ensures cond_false: (pE(env, v.If) == nil && isBoolLit(pN(env, v.If), false)) ==> (r == pN(env, v.Else) && err == pE(env, v.Else))
+//@   ensures open: ((errIs(pE(env, v.If), errVariable)) || (pE(env, v.If) == nil && !(pN(env, v.If) is ast.NodeValue))) ==> (errIs(pE(env, v.Then), errIgnore) ? (err == pE(env, v.Then)) : (errIs(pE(env, v.Else), errIgnore) ? (err == pE(env, v.Else)) : (err == nil && r == ast.IsNode(mkstruct(ast.NodeTypeIfThenElse, pN(env, v.If), rightOperand(env, v.Then), rightOperand(env, v.Else))))))
 
 // foldPolicy works on a copy: the policy it is given (the one MarshalCedar,
 // MarshalJSON and AST() show) is left as it was, the scope and the effect are
@@ -411,6 +477,7 @@ package eval
 
 //@ func ValueToEntity
 //@   props C01
+//@   pure
 //@   results r, err
 //@   ensures (v is types.EntityUID) ? (err == nil && r == v.(types.EntityUID)) : (err != nil && errIs(err, ErrType))
 
@@ -707,12 +774,29 @@ package eval
 //@   ensures okEntity(n.lhs, env) ==> (err == nil && v == types.Boolean(vEntity(n.lhs, env).Type == n.rhs))
 
 // ---- entity hierarchy: in / is in ----
+// The error reported for a set with non-entity members is the conversion error of such a member. It is a
+// function of the set only if all such members give the same error (C14): inSetErr names that error.
+//@ spec func uniformSetErr(s types.Set) bool = forall a types.Value, b types.Value :: (iter_Set_All(s, a) && iter_Set_All(s, b) && !(a is types.EntityUID) && !(b is types.EntityUID)) ==> ValueToEntity#1(a) == ValueToEntity#1(b)
+//@ spec func inSetErr(s types.Set) error
+//@ axiom in_set_err: forall s types.Set, x types.Value :: { iter_Set_All(s, x) } (uniformSetErr(s) && iter_Set_All(s, x) && !(x is types.EntityUID)) ==> inSetErr(s) == ValueToEntity#1(x)
 //@ func doInEval
-//@   props C01 C03
+//@   props C01 C03 C14
 //@   pure
 //@   results v, err
 //@   ensures (rhs is types.EntityUID) ==> err == nil && v == types.Boolean(reach(env, lhs, rhs.(types.EntityUID)))
 //@   ensures (!(rhs is types.EntityUID) && !(rhs is types.Set)) ==> err != nil && errIs(err, ErrType)
+// `e in [..]`: every member must be an entity (whatever the answer would be), then some member is reachable
+//@   dispatch Container.Contains
+//@   ensures bool_result: err == nil ==> (v is types.Boolean)
+//@   ensures set_type: ((rhs is types.Set) && (exists x types.Value :: iter_Set_All(rhs.(types.Set), x) && !(x is types.EntityUID))) ==> (err != nil && errIs(err, ErrType))
+//@   ensures set_err_deterministic: ((rhs is types.Set) && (exists x types.Value :: iter_Set_All(rhs.(types.Set), x) && !(x is types.EntityUID))) ==> err == inSetErr(rhs.(types.Set))
+//@   ensures set_ok: ((rhs is types.Set) && (forall x types.Value :: iter_Set_All(rhs.(types.Set), x) ==> (x is types.EntityUID))) ==> err == nil
+//@   ensures set_sound: ((rhs is types.Set) && err == nil && v == types.Value(types.Boolean(true))) ==> (exists t types.EntityUID :: iter_Set_All(rhs.(types.Set), types.Value(t)) && reach(env, lhs, t))
+//@   ensures set_complete: ((rhs is types.Set) && err == nil && v != types.Value(types.Boolean(true))) ==> (v == types.Value(types.Boolean(false)) && (forall t types.EntityUID :: { reach(env, lhs, t) } iter_Set_All(rhs.(types.Set), types.Value(t)) ==> !reach(env, lhs, t)))
+//@   loop 1
+//@     invariant query != nil
+//@     invariant forall x types.Value :: { $done[x] } $done[x] ==> ((x is types.EntityUID) && has(query.m, x.(types.EntityUID)))
+//@     invariant forall t types.EntityUID :: { has(query.m, t) } has(query.m, t) ==> $done[types.Value(t)]
 
 //@ func (inEval) Eval
 //@   props C01
@@ -1047,35 +1131,67 @@ package eval
 //@ spec func keptNode(env Env, c ast.IsNode) ast.IsNode = errIs(pE(env, c), errVariable) ? c : pN(env, c)
 //@ spec func isLitP(env Env, c ast.IsNode) bool = pE(env, c) == nil && (pN(env, c) is ast.NodeValue)
 //@ spec func pOutcome(r ast.IsNode, err error, rebuilt ast.IsNode, ev Evaler, env Env) bool = (evE(ev, env) != nil) ? (err == evE(ev, env)) : (isVar(evV(ev, env)) ? (r == rebuilt && err == errVariable) : (isIgn(evV(ev, env)) ? (err == errIgnore) : (err == nil && r == ast.IsNode(mkstruct(ast.NodeValue, evV(ev, env))))))
+// litKnown(n): the literals written in the expression contain no unknowns (policies do not
+// mention the reserved entity types); inherited by the children of every node.
+//@ spec func litKnown(n ast.IsNode) bool
+//@ axiom lit_known_value: forall n ast.IsNode :: { litKnown(n) } (litKnown(n) && (n is ast.NodeValue)) ==> known(n.(ast.NodeValue).Value)
+//@ axiom lit_known_In: forall n ast.IsNode :: { litKnown(n) } (litKnown(n) && (n is ast.NodeTypeIn)) ==> (litKnown(n.(ast.NodeTypeIn).Left) && litKnown(n.(ast.NodeTypeIn).Right))
+//@ axiom lit_known_Equals: forall n ast.IsNode :: { litKnown(n) } (litKnown(n) && (n is ast.NodeTypeEquals)) ==> (litKnown(n.(ast.NodeTypeEquals).Left) && litKnown(n.(ast.NodeTypeEquals).Right))
+//@ axiom lit_known_NotEquals: forall n ast.IsNode :: { litKnown(n) } (litKnown(n) && (n is ast.NodeTypeNotEquals)) ==> (litKnown(n.(ast.NodeTypeNotEquals).Left) && litKnown(n.(ast.NodeTypeNotEquals).Right))
+//@ axiom lit_known_GreaterThan: forall n ast.IsNode :: { litKnown(n) } (litKnown(n) && (n is ast.NodeTypeGreaterThan)) ==> (litKnown(n.(ast.NodeTypeGreaterThan).Left) && litKnown(n.(ast.NodeTypeGreaterThan).Right))
+//@ axiom lit_known_GreaterThanOrEqual: forall n ast.IsNode :: { litKnown(n) } (litKnown(n) && (n is ast.NodeTypeGreaterThanOrEqual)) ==> (litKnown(n.(ast.NodeTypeGreaterThanOrEqual).Left) && litKnown(n.(ast.NodeTypeGreaterThanOrEqual).Right))
+//@ axiom lit_known_LessThan: forall n ast.IsNode :: { litKnown(n) } (litKnown(n) && (n is ast.NodeTypeLessThan)) ==> (litKnown(n.(ast.NodeTypeLessThan).Left) && litKnown(n.(ast.NodeTypeLessThan).Right))
+//@ axiom lit_known_LessThanOrEqual: forall n ast.IsNode :: { litKnown(n) } (litKnown(n) && (n is ast.NodeTypeLessThanOrEqual)) ==> (litKnown(n.(ast.NodeTypeLessThanOrEqual).Left) && litKnown(n.(ast.NodeTypeLessThanOrEqual).Right))
+//@ axiom lit_known_Mult: forall n ast.IsNode :: { litKnown(n) } (litKnown(n) && (n is ast.NodeTypeMult)) ==> (litKnown(n.(ast.NodeTypeMult).Left) && litKnown(n.(ast.NodeTypeMult).Right))
+//@ axiom lit_known_Contains: forall n ast.IsNode :: { litKnown(n) } (litKnown(n) && (n is ast.NodeTypeContains)) ==> (litKnown(n.(ast.NodeTypeContains).Left) && litKnown(n.(ast.NodeTypeContains).Right))
+//@ axiom lit_known_ContainsAll: forall n ast.IsNode :: { litKnown(n) } (litKnown(n) && (n is ast.NodeTypeContainsAll)) ==> (litKnown(n.(ast.NodeTypeContainsAll).Left) && litKnown(n.(ast.NodeTypeContainsAll).Right))
+//@ axiom lit_known_ContainsAny: forall n ast.IsNode :: { litKnown(n) } (litKnown(n) && (n is ast.NodeTypeContainsAny)) ==> (litKnown(n.(ast.NodeTypeContainsAny).Left) && litKnown(n.(ast.NodeTypeContainsAny).Right))
+//@ axiom lit_known_GetTag: forall n ast.IsNode :: { litKnown(n) } (litKnown(n) && (n is ast.NodeTypeGetTag)) ==> (litKnown(n.(ast.NodeTypeGetTag).Left) && litKnown(n.(ast.NodeTypeGetTag).Right))
+//@ axiom lit_known_HasTag: forall n ast.IsNode :: { litKnown(n) } (litKnown(n) && (n is ast.NodeTypeHasTag)) ==> (litKnown(n.(ast.NodeTypeHasTag).Left) && litKnown(n.(ast.NodeTypeHasTag).Right))
+//@ axiom lit_known_Sub: forall n ast.IsNode :: { litKnown(n) } (litKnown(n) && (n is ast.NodeTypeSub)) ==> (litKnown(n.(ast.NodeTypeSub).Left) && litKnown(n.(ast.NodeTypeSub).Right))
+//@ axiom lit_known_Add: forall n ast.IsNode :: { litKnown(n) } (litKnown(n) && (n is ast.NodeTypeAdd)) ==> (litKnown(n.(ast.NodeTypeAdd).Left) && litKnown(n.(ast.NodeTypeAdd).Right))
+//@ axiom lit_known_And: forall n ast.IsNode :: { litKnown(n) } (litKnown(n) && (n is ast.NodeTypeAnd)) ==> (litKnown(n.(ast.NodeTypeAnd).Left) && litKnown(n.(ast.NodeTypeAnd).Right))
+//@ axiom lit_known_Or: forall n ast.IsNode :: { litKnown(n) } (litKnown(n) && (n is ast.NodeTypeOr)) ==> (litKnown(n.(ast.NodeTypeOr).Left) && litKnown(n.(ast.NodeTypeOr).Right))
+//@ axiom lit_known_Negate: forall n ast.IsNode :: { litKnown(n) } (litKnown(n) && (n is ast.NodeTypeNegate)) ==> litKnown(n.(ast.NodeTypeNegate).Arg)
+//@ axiom lit_known_Not: forall n ast.IsNode :: { litKnown(n) } (litKnown(n) && (n is ast.NodeTypeNot)) ==> litKnown(n.(ast.NodeTypeNot).Arg)
+//@ axiom lit_known_IsEmpty: forall n ast.IsNode :: { litKnown(n) } (litKnown(n) && (n is ast.NodeTypeIsEmpty)) ==> litKnown(n.(ast.NodeTypeIsEmpty).Arg)
+//@ axiom lit_known_Access: forall n ast.IsNode :: { litKnown(n) } (litKnown(n) && (n is ast.NodeTypeAccess)) ==> litKnown(n.(ast.NodeTypeAccess).Arg)
+//@ axiom lit_known_Like: forall n ast.IsNode :: { litKnown(n) } (litKnown(n) && (n is ast.NodeTypeLike)) ==> litKnown(n.(ast.NodeTypeLike).Arg)
+//@ axiom lit_known_Is: forall n ast.IsNode :: { litKnown(n) } (litKnown(n) && (n is ast.NodeTypeIs)) ==> litKnown(n.(ast.NodeTypeIs).Left)
+//@ axiom lit_known_IsIn: forall n ast.IsNode :: { litKnown(n) } (litKnown(n) && (n is ast.NodeTypeIsIn)) ==> (litKnown(n.(ast.NodeTypeIsIn).Left) && litKnown(n.(ast.NodeTypeIsIn).Entity))
+//@ axiom lit_known_IfThenElse: forall n ast.IsNode :: { litKnown(n) } (litKnown(n) && (n is ast.NodeTypeIfThenElse)) ==> (litKnown(n.(ast.NodeTypeIfThenElse).If) && litKnown(n.(ast.NodeTypeIfThenElse).Then) && litKnown(n.(ast.NodeTypeIfThenElse).Else))
 //@ func partial
 //@   props C06
 //@   pure
 //@   calldepth 8
 //@   dispatch Evaler.Eval@errorEval
 //@   results r, err
-//@   ensures (n is ast.NodeTypeIn) ==> (hardErr(pE(env, n.(ast.NodeTypeIn).Left)) ? (err == pE(env, n.(ast.NodeTypeIn).Left)) : (hardErr(pE(env, n.(ast.NodeTypeIn).Right)) ? (err == pE(env, n.(ast.NodeTypeIn).Right)) : ((isLitP(env, n.(ast.NodeTypeIn).Left) && isLitP(env, n.(ast.NodeTypeIn).Right)) ? pOutcome(r, err, ast.IsNode(mkstruct(ast.NodeTypeIn, mkstruct(ast.BinaryNode, keptNode(env, n.(ast.NodeTypeIn).Left), keptNode(env, n.(ast.NodeTypeIn).Right)))), ToEval#0(ast.IsNode(mkstruct(ast.NodeTypeIn, mkstruct(ast.BinaryNode, pN(env, n.(ast.NodeTypeIn).Left), pN(env, n.(ast.NodeTypeIn).Right))))), env) : (err == nil && r == ast.IsNode(mkstruct(ast.NodeTypeIn, mkstruct(ast.BinaryNode, keptNode(env, n.(ast.NodeTypeIn).Left), keptNode(env, n.(ast.NodeTypeIn).Right))))))))
-//@   ensures (n is ast.NodeTypeEquals) ==> (hardErr(pE(env, n.(ast.NodeTypeEquals).Left)) ? (err == pE(env, n.(ast.NodeTypeEquals).Left)) : (hardErr(pE(env, n.(ast.NodeTypeEquals).Right)) ? (err == pE(env, n.(ast.NodeTypeEquals).Right)) : ((isLitP(env, n.(ast.NodeTypeEquals).Left) && isLitP(env, n.(ast.NodeTypeEquals).Right)) ? pOutcome(r, err, ast.IsNode(mkstruct(ast.NodeTypeEquals, mkstruct(ast.BinaryNode, keptNode(env, n.(ast.NodeTypeEquals).Left), keptNode(env, n.(ast.NodeTypeEquals).Right)))), ToEval#0(ast.IsNode(mkstruct(ast.NodeTypeEquals, mkstruct(ast.BinaryNode, pN(env, n.(ast.NodeTypeEquals).Left), pN(env, n.(ast.NodeTypeEquals).Right))))), env) : (err == nil && r == ast.IsNode(mkstruct(ast.NodeTypeEquals, mkstruct(ast.BinaryNode, keptNode(env, n.(ast.NodeTypeEquals).Left), keptNode(env, n.(ast.NodeTypeEquals).Right))))))))
-//@   ensures (n is ast.NodeTypeNotEquals) ==> (hardErr(pE(env, n.(ast.NodeTypeNotEquals).Left)) ? (err == pE(env, n.(ast.NodeTypeNotEquals).Left)) : (hardErr(pE(env, n.(ast.NodeTypeNotEquals).Right)) ? (err == pE(env, n.(ast.NodeTypeNotEquals).Right)) : ((isLitP(env, n.(ast.NodeTypeNotEquals).Left) && isLitP(env, n.(ast.NodeTypeNotEquals).Right)) ? pOutcome(r, err, ast.IsNode(mkstruct(ast.NodeTypeNotEquals, mkstruct(ast.BinaryNode, keptNode(env, n.(ast.NodeTypeNotEquals).Left), keptNode(env, n.(ast.NodeTypeNotEquals).Right)))), ToEval#0(ast.IsNode(mkstruct(ast.NodeTypeNotEquals, mkstruct(ast.BinaryNode, pN(env, n.(ast.NodeTypeNotEquals).Left), pN(env, n.(ast.NodeTypeNotEquals).Right))))), env) : (err == nil && r == ast.IsNode(mkstruct(ast.NodeTypeNotEquals, mkstruct(ast.BinaryNode, keptNode(env, n.(ast.NodeTypeNotEquals).Left), keptNode(env, n.(ast.NodeTypeNotEquals).Right))))))))
-//@   ensures (n is ast.NodeTypeGreaterThan) ==> (hardErr(pE(env, n.(ast.NodeTypeGreaterThan).Left)) ? (err == pE(env, n.(ast.NodeTypeGreaterThan).Left)) : (hardErr(pE(env, n.(ast.NodeTypeGreaterThan).Right)) ? (err == pE(env, n.(ast.NodeTypeGreaterThan).Right)) : ((isLitP(env, n.(ast.NodeTypeGreaterThan).Left) && isLitP(env, n.(ast.NodeTypeGreaterThan).Right)) ? pOutcome(r, err, ast.IsNode(mkstruct(ast.NodeTypeGreaterThan, mkstruct(ast.BinaryNode, keptNode(env, n.(ast.NodeTypeGreaterThan).Left), keptNode(env, n.(ast.NodeTypeGreaterThan).Right)))), ToEval#0(ast.IsNode(mkstruct(ast.NodeTypeGreaterThan, mkstruct(ast.BinaryNode, pN(env, n.(ast.NodeTypeGreaterThan).Left), pN(env, n.(ast.NodeTypeGreaterThan).Right))))), env) : (err == nil && r == ast.IsNode(mkstruct(ast.NodeTypeGreaterThan, mkstruct(ast.BinaryNode, keptNode(env, n.(ast.NodeTypeGreaterThan).Left), keptNode(env, n.(ast.NodeTypeGreaterThan).Right))))))))
-//@   ensures (n is ast.NodeTypeGreaterThanOrEqual) ==> (hardErr(pE(env, n.(ast.NodeTypeGreaterThanOrEqual).Left)) ? (err == pE(env, n.(ast.NodeTypeGreaterThanOrEqual).Left)) : (hardErr(pE(env, n.(ast.NodeTypeGreaterThanOrEqual).Right)) ? (err == pE(env, n.(ast.NodeTypeGreaterThanOrEqual).Right)) : ((isLitP(env, n.(ast.NodeTypeGreaterThanOrEqual).Left) && isLitP(env, n.(ast.NodeTypeGreaterThanOrEqual).Right)) ? pOutcome(r, err, ast.IsNode(mkstruct(ast.NodeTypeGreaterThanOrEqual, mkstruct(ast.BinaryNode, keptNode(env, n.(ast.NodeTypeGreaterThanOrEqual).Left), keptNode(env, n.(ast.NodeTypeGreaterThanOrEqual).Right)))), ToEval#0(ast.IsNode(mkstruct(ast.NodeTypeGreaterThanOrEqual, mkstruct(ast.BinaryNode, pN(env, n.(ast.NodeTypeGreaterThanOrEqual).Left), pN(env, n.(ast.NodeTypeGreaterThanOrEqual).Right))))), env) : (err == nil && r == ast.IsNode(mkstruct(ast.NodeTypeGreaterThanOrEqual, mkstruct(ast.BinaryNode, keptNode(env, n.(ast.NodeTypeGreaterThanOrEqual).Left), keptNode(env, n.(ast.NodeTypeGreaterThanOrEqual).Right))))))))
-//@   ensures (n is ast.NodeTypeLessThan) ==> (hardErr(pE(env, n.(ast.NodeTypeLessThan).Left)) ? (err == pE(env, n.(ast.NodeTypeLessThan).Left)) : (hardErr(pE(env, n.(ast.NodeTypeLessThan).Right)) ? (err == pE(env, n.(ast.NodeTypeLessThan).Right)) : ((isLitP(env, n.(ast.NodeTypeLessThan).Left) && isLitP(env, n.(ast.NodeTypeLessThan).Right)) ? pOutcome(r, err, ast.IsNode(mkstruct(ast.NodeTypeLessThan, mkstruct(ast.BinaryNode, keptNode(env, n.(ast.NodeTypeLessThan).Left), keptNode(env, n.(ast.NodeTypeLessThan).Right)))), ToEval#0(ast.IsNode(mkstruct(ast.NodeTypeLessThan, mkstruct(ast.BinaryNode, pN(env, n.(ast.NodeTypeLessThan).Left), pN(env, n.(ast.NodeTypeLessThan).Right))))), env) : (err == nil && r == ast.IsNode(mkstruct(ast.NodeTypeLessThan, mkstruct(ast.BinaryNode, keptNode(env, n.(ast.NodeTypeLessThan).Left), keptNode(env, n.(ast.NodeTypeLessThan).Right))))))))
-//@   ensures (n is ast.NodeTypeLessThanOrEqual) ==> (hardErr(pE(env, n.(ast.NodeTypeLessThanOrEqual).Left)) ? (err == pE(env, n.(ast.NodeTypeLessThanOrEqual).Left)) : (hardErr(pE(env, n.(ast.NodeTypeLessThanOrEqual).Right)) ? (err == pE(env, n.(ast.NodeTypeLessThanOrEqual).Right)) : ((isLitP(env, n.(ast.NodeTypeLessThanOrEqual).Left) && isLitP(env, n.(ast.NodeTypeLessThanOrEqual).Right)) ? pOutcome(r, err, ast.IsNode(mkstruct(ast.NodeTypeLessThanOrEqual, mkstruct(ast.BinaryNode, keptNode(env, n.(ast.NodeTypeLessThanOrEqual).Left), keptNode(env, n.(ast.NodeTypeLessThanOrEqual).Right)))), ToEval#0(ast.IsNode(mkstruct(ast.NodeTypeLessThanOrEqual, mkstruct(ast.BinaryNode, pN(env, n.(ast.NodeTypeLessThanOrEqual).Left), pN(env, n.(ast.NodeTypeLessThanOrEqual).Right))))), env) : (err == nil && r == ast.IsNode(mkstruct(ast.NodeTypeLessThanOrEqual, mkstruct(ast.BinaryNode, keptNode(env, n.(ast.NodeTypeLessThanOrEqual).Left), keptNode(env, n.(ast.NodeTypeLessThanOrEqual).Right))))))))
-//@   ensures (n is ast.NodeTypeMult) ==> (hardErr(pE(env, n.(ast.NodeTypeMult).Left)) ? (err == pE(env, n.(ast.NodeTypeMult).Left)) : (hardErr(pE(env, n.(ast.NodeTypeMult).Right)) ? (err == pE(env, n.(ast.NodeTypeMult).Right)) : ((isLitP(env, n.(ast.NodeTypeMult).Left) && isLitP(env, n.(ast.NodeTypeMult).Right)) ? pOutcome(r, err, ast.IsNode(mkstruct(ast.NodeTypeMult, mkstruct(ast.BinaryNode, keptNode(env, n.(ast.NodeTypeMult).Left), keptNode(env, n.(ast.NodeTypeMult).Right)))), ToEval#0(ast.IsNode(mkstruct(ast.NodeTypeMult, mkstruct(ast.BinaryNode, pN(env, n.(ast.NodeTypeMult).Left), pN(env, n.(ast.NodeTypeMult).Right))))), env) : (err == nil && r == ast.IsNode(mkstruct(ast.NodeTypeMult, mkstruct(ast.BinaryNode, keptNode(env, n.(ast.NodeTypeMult).Left), keptNode(env, n.(ast.NodeTypeMult).Right))))))))
-//@   ensures (n is ast.NodeTypeContains) ==> (hardErr(pE(env, n.(ast.NodeTypeContains).Left)) ? (err == pE(env, n.(ast.NodeTypeContains).Left)) : (hardErr(pE(env, n.(ast.NodeTypeContains).Right)) ? (err == pE(env, n.(ast.NodeTypeContains).Right)) : ((isLitP(env, n.(ast.NodeTypeContains).Left) && isLitP(env, n.(ast.NodeTypeContains).Right)) ? pOutcome(r, err, ast.IsNode(mkstruct(ast.NodeTypeContains, mkstruct(ast.BinaryNode, keptNode(env, n.(ast.NodeTypeContains).Left), keptNode(env, n.(ast.NodeTypeContains).Right)))), ToEval#0(ast.IsNode(mkstruct(ast.NodeTypeContains, mkstruct(ast.BinaryNode, pN(env, n.(ast.NodeTypeContains).Left), pN(env, n.(ast.NodeTypeContains).Right))))), env) : (err == nil && r == ast.IsNode(mkstruct(ast.NodeTypeContains, mkstruct(ast.BinaryNode, keptNode(env, n.(ast.NodeTypeContains).Left), keptNode(env, n.(ast.NodeTypeContains).Right))))))))
-//@   ensures (n is ast.NodeTypeContainsAll) ==> (hardErr(pE(env, n.(ast.NodeTypeContainsAll).Left)) ? (err == pE(env, n.(ast.NodeTypeContainsAll).Left)) : (hardErr(pE(env, n.(ast.NodeTypeContainsAll).Right)) ? (err == pE(env, n.(ast.NodeTypeContainsAll).Right)) : ((isLitP(env, n.(ast.NodeTypeContainsAll).Left) && isLitP(env, n.(ast.NodeTypeContainsAll).Right)) ? pOutcome(r, err, ast.IsNode(mkstruct(ast.NodeTypeContainsAll, mkstruct(ast.BinaryNode, keptNode(env, n.(ast.NodeTypeContainsAll).Left), keptNode(env, n.(ast.NodeTypeContainsAll).Right)))), ToEval#0(ast.IsNode(mkstruct(ast.NodeTypeContainsAll, mkstruct(ast.BinaryNode, pN(env, n.(ast.NodeTypeContainsAll).Left), pN(env, n.(ast.NodeTypeContainsAll).Right))))), env) : (err == nil && r == ast.IsNode(mkstruct(ast.NodeTypeContainsAll, mkstruct(ast.BinaryNode, keptNode(env, n.(ast.NodeTypeContainsAll).Left), keptNode(env, n.(ast.NodeTypeContainsAll).Right))))))))
-//@   ensures (n is ast.NodeTypeContainsAny) ==> (hardErr(pE(env, n.(ast.NodeTypeContainsAny).Left)) ? (err == pE(env, n.(ast.NodeTypeContainsAny).Left)) : (hardErr(pE(env, n.(ast.NodeTypeContainsAny).Right)) ? (err == pE(env, n.(ast.NodeTypeContainsAny).Right)) : ((isLitP(env, n.(ast.NodeTypeContainsAny).Left) && isLitP(env, n.(ast.NodeTypeContainsAny).Right)) ? pOutcome(r, err, ast.IsNode(mkstruct(ast.NodeTypeContainsAny, mkstruct(ast.BinaryNode, keptNode(env, n.(ast.NodeTypeContainsAny).Left), keptNode(env, n.(ast.NodeTypeContainsAny).Right)))), ToEval#0(ast.IsNode(mkstruct(ast.NodeTypeContainsAny, mkstruct(ast.BinaryNode, pN(env, n.(ast.NodeTypeContainsAny).Left), pN(env, n.(ast.NodeTypeContainsAny).Right))))), env) : (err == nil && r == ast.IsNode(mkstruct(ast.NodeTypeContainsAny, mkstruct(ast.BinaryNode, keptNode(env, n.(ast.NodeTypeContainsAny).Left), keptNode(env, n.(ast.NodeTypeContainsAny).Right))))))))
-//@   ensures (n is ast.NodeTypeGetTag) ==> (hardErr(pE(env, n.(ast.NodeTypeGetTag).Left)) ? (err == pE(env, n.(ast.NodeTypeGetTag).Left)) : (hardErr(pE(env, n.(ast.NodeTypeGetTag).Right)) ? (err == pE(env, n.(ast.NodeTypeGetTag).Right)) : ((isLitP(env, n.(ast.NodeTypeGetTag).Left) && isLitP(env, n.(ast.NodeTypeGetTag).Right)) ? pOutcome(r, err, ast.IsNode(mkstruct(ast.NodeTypeGetTag, mkstruct(ast.BinaryNode, keptNode(env, n.(ast.NodeTypeGetTag).Left), keptNode(env, n.(ast.NodeTypeGetTag).Right)))), ToEval#0(ast.IsNode(mkstruct(ast.NodeTypeGetTag, mkstruct(ast.BinaryNode, pN(env, n.(ast.NodeTypeGetTag).Left), pN(env, n.(ast.NodeTypeGetTag).Right))))), env) : (err == nil && r == ast.IsNode(mkstruct(ast.NodeTypeGetTag, mkstruct(ast.BinaryNode, keptNode(env, n.(ast.NodeTypeGetTag).Left), keptNode(env, n.(ast.NodeTypeGetTag).Right))))))))
-//@   ensures (n is ast.NodeTypeHasTag) ==> (hardErr(pE(env, n.(ast.NodeTypeHasTag).Left)) ? (err == pE(env, n.(ast.NodeTypeHasTag).Left)) : (hardErr(pE(env, n.(ast.NodeTypeHasTag).Right)) ? (err == pE(env, n.(ast.NodeTypeHasTag).Right)) : ((isLitP(env, n.(ast.NodeTypeHasTag).Left) && isLitP(env, n.(ast.NodeTypeHasTag).Right)) ? pOutcome(r, err, ast.IsNode(mkstruct(ast.NodeTypeHasTag, mkstruct(ast.BinaryNode, keptNode(env, n.(ast.NodeTypeHasTag).Left), keptNode(env, n.(ast.NodeTypeHasTag).Right)))), ToEval#0(ast.IsNode(mkstruct(ast.NodeTypeHasTag, mkstruct(ast.BinaryNode, pN(env, n.(ast.NodeTypeHasTag).Left), pN(env, n.(ast.NodeTypeHasTag).Right))))), env) : (err == nil && r == ast.IsNode(mkstruct(ast.NodeTypeHasTag, mkstruct(ast.BinaryNode, keptNode(env, n.(ast.NodeTypeHasTag).Left), keptNode(env, n.(ast.NodeTypeHasTag).Right))))))))
-//@   ensures (n is ast.NodeTypeSub) ==> (hardErr(pE(env, n.(ast.NodeTypeSub).Left)) ? (err == pE(env, n.(ast.NodeTypeSub).Left)) : (hardErr(pE(env, n.(ast.NodeTypeSub).Right)) ? (err == pE(env, n.(ast.NodeTypeSub).Right)) : ((isLitP(env, n.(ast.NodeTypeSub).Left) && isLitP(env, n.(ast.NodeTypeSub).Right)) ? pOutcome(r, err, ast.IsNode(mkstruct(ast.NodeTypeSub, mkstruct(ast.BinaryNode, keptNode(env, n.(ast.NodeTypeSub).Left), keptNode(env, n.(ast.NodeTypeSub).Right)), mkstruct(ast.AddNode))), ToEval#0(ast.IsNode(mkstruct(ast.NodeTypeSub, mkstruct(ast.BinaryNode, pN(env, n.(ast.NodeTypeSub).Left), pN(env, n.(ast.NodeTypeSub).Right)), mkstruct(ast.AddNode)))), env) : (err == nil && r == ast.IsNode(mkstruct(ast.NodeTypeSub, mkstruct(ast.BinaryNode, keptNode(env, n.(ast.NodeTypeSub).Left), keptNode(env, n.(ast.NodeTypeSub).Right)), mkstruct(ast.AddNode)))))))
-//@   ensures (n is ast.NodeTypeAdd) ==> (hardErr(pE(env, n.(ast.NodeTypeAdd).Left)) ? (err == pE(env, n.(ast.NodeTypeAdd).Left)) : (hardErr(pE(env, n.(ast.NodeTypeAdd).Right)) ? (err == pE(env, n.(ast.NodeTypeAdd).Right)) : ((isLitP(env, n.(ast.NodeTypeAdd).Left) && isLitP(env, n.(ast.NodeTypeAdd).Right)) ? pOutcome(r, err, ast.IsNode(mkstruct(ast.NodeTypeAdd, mkstruct(ast.BinaryNode, keptNode(env, n.(ast.NodeTypeAdd).Left), keptNode(env, n.(ast.NodeTypeAdd).Right)), mkstruct(ast.AddNode))), ToEval#0(ast.IsNode(mkstruct(ast.NodeTypeAdd, mkstruct(ast.BinaryNode, pN(env, n.(ast.NodeTypeAdd).Left), pN(env, n.(ast.NodeTypeAdd).Right)), mkstruct(ast.AddNode)))), env) : (err == nil && r == ast.IsNode(mkstruct(ast.NodeTypeAdd, mkstruct(ast.BinaryNode, keptNode(env, n.(ast.NodeTypeAdd).Left), keptNode(env, n.(ast.NodeTypeAdd).Right)), mkstruct(ast.AddNode)))))))
-//@   ensures (n is ast.NodeTypeNegate) ==> (hardErr(pE(env, n.(ast.NodeTypeNegate).Arg)) ? (err == pE(env, n.(ast.NodeTypeNegate).Arg)) : (isLitP(env, n.(ast.NodeTypeNegate).Arg) ? pOutcome(r, err, ast.IsNode(mkstruct(ast.NodeTypeNegate, mkstruct(ast.UnaryNode, keptNode(env, n.(ast.NodeTypeNegate).Arg)))), ToEval#0(ast.IsNode(mkstruct(ast.NodeTypeNegate, mkstruct(ast.UnaryNode, pN(env, n.(ast.NodeTypeNegate).Arg))))), env) : (err == nil && r == ast.IsNode(mkstruct(ast.NodeTypeNegate, mkstruct(ast.UnaryNode, keptNode(env, n.(ast.NodeTypeNegate).Arg)))))))
-//@   ensures (n is ast.NodeTypeNot) ==> (hardErr(pE(env, n.(ast.NodeTypeNot).Arg)) ? (err == pE(env, n.(ast.NodeTypeNot).Arg)) : (isLitP(env, n.(ast.NodeTypeNot).Arg) ? pOutcome(r, err, ast.IsNode(mkstruct(ast.NodeTypeNot, mkstruct(ast.UnaryNode, keptNode(env, n.(ast.NodeTypeNot).Arg)))), ToEval#0(ast.IsNode(mkstruct(ast.NodeTypeNot, mkstruct(ast.UnaryNode, pN(env, n.(ast.NodeTypeNot).Arg))))), env) : (err == nil && r == ast.IsNode(mkstruct(ast.NodeTypeNot, mkstruct(ast.UnaryNode, keptNode(env, n.(ast.NodeTypeNot).Arg)))))))
-//@   ensures (n is ast.NodeTypeIsEmpty) ==> (hardErr(pE(env, n.(ast.NodeTypeIsEmpty).Arg)) ? (err == pE(env, n.(ast.NodeTypeIsEmpty).Arg)) : (isLitP(env, n.(ast.NodeTypeIsEmpty).Arg) ? pOutcome(r, err, ast.IsNode(mkstruct(ast.NodeTypeIsEmpty, mkstruct(ast.UnaryNode, keptNode(env, n.(ast.NodeTypeIsEmpty).Arg)))), ToEval#0(ast.IsNode(mkstruct(ast.NodeTypeIsEmpty, mkstruct(ast.UnaryNode, pN(env, n.(ast.NodeTypeIsEmpty).Arg))))), env) : (err == nil && r == ast.IsNode(mkstruct(ast.NodeTypeIsEmpty, mkstruct(ast.UnaryNode, keptNode(env, n.(ast.NodeTypeIsEmpty).Arg)))))))
-//@   ensures (n is ast.NodeTypeAccess) ==> (hardErr(pE(env, n.(ast.NodeTypeAccess).Arg)) ? (err == pE(env, n.(ast.NodeTypeAccess).Arg)) : (isLitP(env, n.(ast.NodeTypeAccess).Arg) ? pOutcome(r, err, ast.IsNode(mkstruct(ast.NodeTypeAccess, mkstruct(ast.StrOpNode, keptNode(env, n.(ast.NodeTypeAccess).Arg), n.(ast.NodeTypeAccess).Value))), ToEval#0(ast.IsNode(mkstruct(ast.NodeTypeAccess, mkstruct(ast.StrOpNode, pN(env, n.(ast.NodeTypeAccess).Arg), n.(ast.NodeTypeAccess).Value)))), env) : (err == nil && r == ast.IsNode(mkstruct(ast.NodeTypeAccess, mkstruct(ast.StrOpNode, keptNode(env, n.(ast.NodeTypeAccess).Arg), n.(ast.NodeTypeAccess).Value))))))
-//@   ensures (n is ast.NodeTypeLike) ==> (hardErr(pE(env, n.(ast.NodeTypeLike).Arg)) ? (err == pE(env, n.(ast.NodeTypeLike).Arg)) : (isLitP(env, n.(ast.NodeTypeLike).Arg) ? pOutcome(r, err, ast.IsNode(mkstruct(ast.NodeTypeLike, keptNode(env, n.(ast.NodeTypeLike).Arg), n.(ast.NodeTypeLike).Value)), ToEval#0(ast.IsNode(mkstruct(ast.NodeTypeLike, pN(env, n.(ast.NodeTypeLike).Arg), n.(ast.NodeTypeLike).Value))), env) : (err == nil && r == ast.IsNode(mkstruct(ast.NodeTypeLike, keptNode(env, n.(ast.NodeTypeLike).Arg), n.(ast.NodeTypeLike).Value)))))
-//@   ensures (n is ast.NodeTypeIs) ==> (hardErr(pE(env, n.(ast.NodeTypeIs).Left)) ? (err == pE(env, n.(ast.NodeTypeIs).Left)) : (isLitP(env, n.(ast.NodeTypeIs).Left) ? pOutcome(r, err, ast.IsNode(mkstruct(ast.NodeTypeIs, keptNode(env, n.(ast.NodeTypeIs).Left), n.(ast.NodeTypeIs).EntityType)), ToEval#0(ast.IsNode(mkstruct(ast.NodeTypeIs, pN(env, n.(ast.NodeTypeIs).Left), n.(ast.NodeTypeIs).EntityType))), env) : (err == nil && r == ast.IsNode(mkstruct(ast.NodeTypeIs, keptNode(env, n.(ast.NodeTypeIs).Left), n.(ast.NodeTypeIs).EntityType)))))
-//@   ensures (n is ast.NodeTypeIsIn) ==> (hardErr(pE(env, n.(ast.NodeTypeIsIn).Left)) ? (err == pE(env, n.(ast.NodeTypeIsIn).Left)) : (hardErr(pE(env, n.(ast.NodeTypeIsIn).Entity)) ? (err == pE(env, n.(ast.NodeTypeIsIn).Entity)) : ((isLitP(env, n.(ast.NodeTypeIsIn).Left) && isLitP(env, n.(ast.NodeTypeIsIn).Entity)) ? pOutcome(r, err, ast.IsNode(mkstruct(ast.NodeTypeIsIn, mkstruct(ast.NodeTypeIs, keptNode(env, n.(ast.NodeTypeIsIn).Left), n.(ast.NodeTypeIsIn).EntityType), keptNode(env, n.(ast.NodeTypeIsIn).Entity))), ToEval#0(ast.IsNode(mkstruct(ast.NodeTypeIsIn, mkstruct(ast.NodeTypeIs, pN(env, n.(ast.NodeTypeIsIn).Left), n.(ast.NodeTypeIsIn).EntityType), pN(env, n.(ast.NodeTypeIsIn).Entity)))), env) : (err == nil && r == ast.IsNode(mkstruct(ast.NodeTypeIsIn, mkstruct(ast.NodeTypeIs, keptNode(env, n.(ast.NodeTypeIsIn).Left), n.(ast.NodeTypeIsIn).EntityType), keptNode(env, n.(ast.NodeTypeIsIn).Entity)))))))
+//@   ensures (n is ast.NodeTypeIn) ==> (hardErr(partial#1(env, n.(ast.NodeTypeIn).Left)) ? (err == partial#1(env, n.(ast.NodeTypeIn).Left)) : (hardErr(partial#1(env, n.(ast.NodeTypeIn).Right)) ? (err == partial#1(env, n.(ast.NodeTypeIn).Right)) : (((partial#1(env, n.(ast.NodeTypeIn).Left) == nil && (partial#0(env, n.(ast.NodeTypeIn).Left) is ast.NodeValue)) && (partial#1(env, n.(ast.NodeTypeIn).Right) == nil && (partial#0(env, n.(ast.NodeTypeIn).Right) is ast.NodeValue))) ? pOutcome(r, err, ast.IsNode(mkstruct(ast.NodeTypeIn, mkstruct(ast.BinaryNode, (errIs(partial#1(env, n.(ast.NodeTypeIn).Left), errVariable) ? n.(ast.NodeTypeIn).Left : partial#0(env, n.(ast.NodeTypeIn).Left)), (errIs(partial#1(env, n.(ast.NodeTypeIn).Right), errVariable) ? n.(ast.NodeTypeIn).Right : partial#0(env, n.(ast.NodeTypeIn).Right))))), ToEval#0(ast.IsNode(mkstruct(ast.NodeTypeIn, mkstruct(ast.BinaryNode, partial#0(env, n.(ast.NodeTypeIn).Left), partial#0(env, n.(ast.NodeTypeIn).Right))))), env) : (err == nil && r == ast.IsNode(mkstruct(ast.NodeTypeIn, mkstruct(ast.BinaryNode, (errIs(partial#1(env, n.(ast.NodeTypeIn).Left), errVariable) ? n.(ast.NodeTypeIn).Left : partial#0(env, n.(ast.NodeTypeIn).Left)), (errIs(partial#1(env, n.(ast.NodeTypeIn).Right), errVariable) ? n.(ast.NodeTypeIn).Right : partial#0(env, n.(ast.NodeTypeIn).Right)))))))))
+//@   ensures (n is ast.NodeTypeEquals) ==> (hardErr(partial#1(env, n.(ast.NodeTypeEquals).Left)) ? (err == partial#1(env, n.(ast.NodeTypeEquals).Left)) : (hardErr(partial#1(env, n.(ast.NodeTypeEquals).Right)) ? (err == partial#1(env, n.(ast.NodeTypeEquals).Right)) : (((partial#1(env, n.(ast.NodeTypeEquals).Left) == nil && (partial#0(env, n.(ast.NodeTypeEquals).Left) is ast.NodeValue)) && (partial#1(env, n.(ast.NodeTypeEquals).Right) == nil && (partial#0(env, n.(ast.NodeTypeEquals).Right) is ast.NodeValue))) ? pOutcome(r, err, ast.IsNode(mkstruct(ast.NodeTypeEquals, mkstruct(ast.BinaryNode, (errIs(partial#1(env, n.(ast.NodeTypeEquals).Left), errVariable) ? n.(ast.NodeTypeEquals).Left : partial#0(env, n.(ast.NodeTypeEquals).Left)), (errIs(partial#1(env, n.(ast.NodeTypeEquals).Right), errVariable) ? n.(ast.NodeTypeEquals).Right : partial#0(env, n.(ast.NodeTypeEquals).Right))))), ToEval#0(ast.IsNode(mkstruct(ast.NodeTypeEquals, mkstruct(ast.BinaryNode, partial#0(env, n.(ast.NodeTypeEquals).Left), partial#0(env, n.(ast.NodeTypeEquals).Right))))), env) : (err == nil && r == ast.IsNode(mkstruct(ast.NodeTypeEquals, mkstruct(ast.BinaryNode, (errIs(partial#1(env, n.(ast.NodeTypeEquals).Left), errVariable) ? n.(ast.NodeTypeEquals).Left : partial#0(env, n.(ast.NodeTypeEquals).Left)), (errIs(partial#1(env, n.(ast.NodeTypeEquals).Right), errVariable) ? n.(ast.NodeTypeEquals).Right : partial#0(env, n.(ast.NodeTypeEquals).Right)))))))))
+//@   ensures (n is ast.NodeTypeNotEquals) ==> (hardErr(partial#1(env, n.(ast.NodeTypeNotEquals).Left)) ? (err == partial#1(env, n.(ast.NodeTypeNotEquals).Left)) : (hardErr(partial#1(env, n.(ast.NodeTypeNotEquals).Right)) ? (err == partial#1(env, n.(ast.NodeTypeNotEquals).Right)) : (((partial#1(env, n.(ast.NodeTypeNotEquals).Left) == nil && (partial#0(env, n.(ast.NodeTypeNotEquals).Left) is ast.NodeValue)) && (partial#1(env, n.(ast.NodeTypeNotEquals).Right) == nil && (partial#0(env, n.(ast.NodeTypeNotEquals).Right) is ast.NodeValue))) ? pOutcome(r, err, ast.IsNode(mkstruct(ast.NodeTypeNotEquals, mkstruct(ast.BinaryNode, (errIs(partial#1(env, n.(ast.NodeTypeNotEquals).Left), errVariable) ? n.(ast.NodeTypeNotEquals).Left : partial#0(env, n.(ast.NodeTypeNotEquals).Left)), (errIs(partial#1(env, n.(ast.NodeTypeNotEquals).Right), errVariable) ? n.(ast.NodeTypeNotEquals).Right : partial#0(env, n.(ast.NodeTypeNotEquals).Right))))), ToEval#0(ast.IsNode(mkstruct(ast.NodeTypeNotEquals, mkstruct(ast.BinaryNode, partial#0(env, n.(ast.NodeTypeNotEquals).Left), partial#0(env, n.(ast.NodeTypeNotEquals).Right))))), env) : (err == nil && r == ast.IsNode(mkstruct(ast.NodeTypeNotEquals, mkstruct(ast.BinaryNode, (errIs(partial#1(env, n.(ast.NodeTypeNotEquals).Left), errVariable) ? n.(ast.NodeTypeNotEquals).Left : partial#0(env, n.(ast.NodeTypeNotEquals).Left)), (errIs(partial#1(env, n.(ast.NodeTypeNotEquals).Right), errVariable) ? n.(ast.NodeTypeNotEquals).Right : partial#0(env, n.(ast.NodeTypeNotEquals).Right)))))))))
+//@   ensures (n is ast.NodeTypeGreaterThan) ==> (hardErr(partial#1(env, n.(ast.NodeTypeGreaterThan).Left)) ? (err == partial#1(env, n.(ast.NodeTypeGreaterThan).Left)) : (hardErr(partial#1(env, n.(ast.NodeTypeGreaterThan).Right)) ? (err == partial#1(env, n.(ast.NodeTypeGreaterThan).Right)) : (((partial#1(env, n.(ast.NodeTypeGreaterThan).Left) == nil && (partial#0(env, n.(ast.NodeTypeGreaterThan).Left) is ast.NodeValue)) && (partial#1(env, n.(ast.NodeTypeGreaterThan).Right) == nil && (partial#0(env, n.(ast.NodeTypeGreaterThan).Right) is ast.NodeValue))) ? pOutcome(r, err, ast.IsNode(mkstruct(ast.NodeTypeGreaterThan, mkstruct(ast.BinaryNode, (errIs(partial#1(env, n.(ast.NodeTypeGreaterThan).Left), errVariable) ? n.(ast.NodeTypeGreaterThan).Left : partial#0(env, n.(ast.NodeTypeGreaterThan).Left)), (errIs(partial#1(env, n.(ast.NodeTypeGreaterThan).Right), errVariable) ? n.(ast.NodeTypeGreaterThan).Right : partial#0(env, n.(ast.NodeTypeGreaterThan).Right))))), ToEval#0(ast.IsNode(mkstruct(ast.NodeTypeGreaterThan, mkstruct(ast.BinaryNode, partial#0(env, n.(ast.NodeTypeGreaterThan).Left), partial#0(env, n.(ast.NodeTypeGreaterThan).Right))))), env) : (err == nil && r == ast.IsNode(mkstruct(ast.NodeTypeGreaterThan, mkstruct(ast.BinaryNode, (errIs(partial#1(env, n.(ast.NodeTypeGreaterThan).Left), errVariable) ? n.(ast.NodeTypeGreaterThan).Left : partial#0(env, n.(ast.NodeTypeGreaterThan).Left)), (errIs(partial#1(env, n.(ast.NodeTypeGreaterThan).Right), errVariable) ? n.(ast.NodeTypeGreaterThan).Right : partial#0(env, n.(ast.NodeTypeGreaterThan).Right)))))))))
+//@   ensures (n is ast.NodeTypeGreaterThanOrEqual) ==> (hardErr(partial#1(env, n.(ast.NodeTypeGreaterThanOrEqual).Left)) ? (err == partial#1(env, n.(ast.NodeTypeGreaterThanOrEqual).Left)) : (hardErr(partial#1(env, n.(ast.NodeTypeGreaterThanOrEqual).Right)) ? (err == partial#1(env, n.(ast.NodeTypeGreaterThanOrEqual).Right)) : (((partial#1(env, n.(ast.NodeTypeGreaterThanOrEqual).Left) == nil && (partial#0(env, n.(ast.NodeTypeGreaterThanOrEqual).Left) is ast.NodeValue)) && (partial#1(env, n.(ast.NodeTypeGreaterThanOrEqual).Right) == nil && (partial#0(env, n.(ast.NodeTypeGreaterThanOrEqual).Right) is ast.NodeValue))) ? pOutcome(r, err, ast.IsNode(mkstruct(ast.NodeTypeGreaterThanOrEqual, mkstruct(ast.BinaryNode, (errIs(partial#1(env, n.(ast.NodeTypeGreaterThanOrEqual).Left), errVariable) ? n.(ast.NodeTypeGreaterThanOrEqual).Left : partial#0(env, n.(ast.NodeTypeGreaterThanOrEqual).Left)), (errIs(partial#1(env, n.(ast.NodeTypeGreaterThanOrEqual).Right), errVariable) ? n.(ast.NodeTypeGreaterThanOrEqual).Right : partial#0(env, n.(ast.NodeTypeGreaterThanOrEqual).Right))))), ToEval#0(ast.IsNode(mkstruct(ast.NodeTypeGreaterThanOrEqual, mkstruct(ast.BinaryNode, partial#0(env, n.(ast.NodeTypeGreaterThanOrEqual).Left), partial#0(env, n.(ast.NodeTypeGreaterThanOrEqual).Right))))), env) : (err == nil && r == ast.IsNode(mkstruct(ast.NodeTypeGreaterThanOrEqual, mkstruct(ast.BinaryNode, (errIs(partial#1(env, n.(ast.NodeTypeGreaterThanOrEqual).Left), errVariable) ? n.(ast.NodeTypeGreaterThanOrEqual).Left : partial#0(env, n.(ast.NodeTypeGreaterThanOrEqual).Left)), (errIs(partial#1(env, n.(ast.NodeTypeGreaterThanOrEqual).Right), errVariable) ? n.(ast.NodeTypeGreaterThanOrEqual).Right : partial#0(env, n.(ast.NodeTypeGreaterThanOrEqual).Right)))))))))
+//@   ensures (n is ast.NodeTypeLessThan) ==> (hardErr(partial#1(env, n.(ast.NodeTypeLessThan).Left)) ? (err == partial#1(env, n.(ast.NodeTypeLessThan).Left)) : (hardErr(partial#1(env, n.(ast.NodeTypeLessThan).Right)) ? (err == partial#1(env, n.(ast.NodeTypeLessThan).Right)) : (((partial#1(env, n.(ast.NodeTypeLessThan).Left) == nil && (partial#0(env, n.(ast.NodeTypeLessThan).Left) is ast.NodeValue)) && (partial#1(env, n.(ast.NodeTypeLessThan).Right) == nil && (partial#0(env, n.(ast.NodeTypeLessThan).Right) is ast.NodeValue))) ? pOutcome(r, err, ast.IsNode(mkstruct(ast.NodeTypeLessThan, mkstruct(ast.BinaryNode, (errIs(partial#1(env, n.(ast.NodeTypeLessThan).Left), errVariable) ? n.(ast.NodeTypeLessThan).Left : partial#0(env, n.(ast.NodeTypeLessThan).Left)), (errIs(partial#1(env, n.(ast.NodeTypeLessThan).Right), errVariable) ? n.(ast.NodeTypeLessThan).Right : partial#0(env, n.(ast.NodeTypeLessThan).Right))))), ToEval#0(ast.IsNode(mkstruct(ast.NodeTypeLessThan, mkstruct(ast.BinaryNode, partial#0(env, n.(ast.NodeTypeLessThan).Left), partial#0(env, n.(ast.NodeTypeLessThan).Right))))), env) : (err == nil && r == ast.IsNode(mkstruct(ast.NodeTypeLessThan, mkstruct(ast.BinaryNode, (errIs(partial#1(env, n.(ast.NodeTypeLessThan).Left), errVariable) ? n.(ast.NodeTypeLessThan).Left : partial#0(env, n.(ast.NodeTypeLessThan).Left)), (errIs(partial#1(env, n.(ast.NodeTypeLessThan).Right), errVariable) ? n.(ast.NodeTypeLessThan).Right : partial#0(env, n.(ast.NodeTypeLessThan).Right)))))))))
+//@   ensures (n is ast.NodeTypeLessThanOrEqual) ==> (hardErr(partial#1(env, n.(ast.NodeTypeLessThanOrEqual).Left)) ? (err == partial#1(env, n.(ast.NodeTypeLessThanOrEqual).Left)) : (hardErr(partial#1(env, n.(ast.NodeTypeLessThanOrEqual).Right)) ? (err == partial#1(env, n.(ast.NodeTypeLessThanOrEqual).Right)) : (((partial#1(env, n.(ast.NodeTypeLessThanOrEqual).Left) == nil && (partial#0(env, n.(ast.NodeTypeLessThanOrEqual).Left) is ast.NodeValue)) && (partial#1(env, n.(ast.NodeTypeLessThanOrEqual).Right) == nil && (partial#0(env, n.(ast.NodeTypeLessThanOrEqual).Right) is ast.NodeValue))) ? pOutcome(r, err, ast.IsNode(mkstruct(ast.NodeTypeLessThanOrEqual, mkstruct(ast.BinaryNode, (errIs(partial#1(env, n.(ast.NodeTypeLessThanOrEqual).Left), errVariable) ? n.(ast.NodeTypeLessThanOrEqual).Left : partial#0(env, n.(ast.NodeTypeLessThanOrEqual).Left)), (errIs(partial#1(env, n.(ast.NodeTypeLessThanOrEqual).Right), errVariable) ? n.(ast.NodeTypeLessThanOrEqual).Right : partial#0(env, n.(ast.NodeTypeLessThanOrEqual).Right))))), ToEval#0(ast.IsNode(mkstruct(ast.NodeTypeLessThanOrEqual, mkstruct(ast.BinaryNode, partial#0(env, n.(ast.NodeTypeLessThanOrEqual).Left), partial#0(env, n.(ast.NodeTypeLessThanOrEqual).Right))))), env) : (err == nil && r == ast.IsNode(mkstruct(ast.NodeTypeLessThanOrEqual, mkstruct(ast.BinaryNode, (errIs(partial#1(env, n.(ast.NodeTypeLessThanOrEqual).Left), errVariable) ? n.(ast.NodeTypeLessThanOrEqual).Left : partial#0(env, n.(ast.NodeTypeLessThanOrEqual).Left)), (errIs(partial#1(env, n.(ast.NodeTypeLessThanOrEqual).Right), errVariable) ? n.(ast.NodeTypeLessThanOrEqual).Right : partial#0(env, n.(ast.NodeTypeLessThanOrEqual).Right)))))))))
+//@   ensures (n is ast.NodeTypeMult) ==> (hardErr(partial#1(env, n.(ast.NodeTypeMult).Left)) ? (err == partial#1(env, n.(ast.NodeTypeMult).Left)) : (hardErr(partial#1(env, n.(ast.NodeTypeMult).Right)) ? (err == partial#1(env, n.(ast.NodeTypeMult).Right)) : (((partial#1(env, n.(ast.NodeTypeMult).Left) == nil && (partial#0(env, n.(ast.NodeTypeMult).Left) is ast.NodeValue)) && (partial#1(env, n.(ast.NodeTypeMult).Right) == nil && (partial#0(env, n.(ast.NodeTypeMult).Right) is ast.NodeValue))) ? pOutcome(r, err, ast.IsNode(mkstruct(ast.NodeTypeMult, mkstruct(ast.BinaryNode, (errIs(partial#1(env, n.(ast.NodeTypeMult).Left), errVariable) ? n.(ast.NodeTypeMult).Left : partial#0(env, n.(ast.NodeTypeMult).Left)), (errIs(partial#1(env, n.(ast.NodeTypeMult).Right), errVariable) ? n.(ast.NodeTypeMult).Right : partial#0(env, n.(ast.NodeTypeMult).Right))))), ToEval#0(ast.IsNode(mkstruct(ast.NodeTypeMult, mkstruct(ast.BinaryNode, partial#0(env, n.(ast.NodeTypeMult).Left), partial#0(env, n.(ast.NodeTypeMult).Right))))), env) : (err == nil && r == ast.IsNode(mkstruct(ast.NodeTypeMult, mkstruct(ast.BinaryNode, (errIs(partial#1(env, n.(ast.NodeTypeMult).Left), errVariable) ? n.(ast.NodeTypeMult).Left : partial#0(env, n.(ast.NodeTypeMult).Left)), (errIs(partial#1(env, n.(ast.NodeTypeMult).Right), errVariable) ? n.(ast.NodeTypeMult).Right : partial#0(env, n.(ast.NodeTypeMult).Right)))))))))
+//@   ensures (n is ast.NodeTypeContains) ==> (hardErr(partial#1(env, n.(ast.NodeTypeContains).Left)) ? (err == partial#1(env, n.(ast.NodeTypeContains).Left)) : (hardErr(partial#1(env, n.(ast.NodeTypeContains).Right)) ? (err == partial#1(env, n.(ast.NodeTypeContains).Right)) : (((partial#1(env, n.(ast.NodeTypeContains).Left) == nil && (partial#0(env, n.(ast.NodeTypeContains).Left) is ast.NodeValue)) && (partial#1(env, n.(ast.NodeTypeContains).Right) == nil && (partial#0(env, n.(ast.NodeTypeContains).Right) is ast.NodeValue))) ? pOutcome(r, err, ast.IsNode(mkstruct(ast.NodeTypeContains, mkstruct(ast.BinaryNode, (errIs(partial#1(env, n.(ast.NodeTypeContains).Left), errVariable) ? n.(ast.NodeTypeContains).Left : partial#0(env, n.(ast.NodeTypeContains).Left)), (errIs(partial#1(env, n.(ast.NodeTypeContains).Right), errVariable) ? n.(ast.NodeTypeContains).Right : partial#0(env, n.(ast.NodeTypeContains).Right))))), ToEval#0(ast.IsNode(mkstruct(ast.NodeTypeContains, mkstruct(ast.BinaryNode, partial#0(env, n.(ast.NodeTypeContains).Left), partial#0(env, n.(ast.NodeTypeContains).Right))))), env) : (err == nil && r == ast.IsNode(mkstruct(ast.NodeTypeContains, mkstruct(ast.BinaryNode, (errIs(partial#1(env, n.(ast.NodeTypeContains).Left), errVariable) ? n.(ast.NodeTypeContains).Left : partial#0(env, n.(ast.NodeTypeContains).Left)), (errIs(partial#1(env, n.(ast.NodeTypeContains).Right), errVariable) ? n.(ast.NodeTypeContains).Right : partial#0(env, n.(ast.NodeTypeContains).Right)))))))))
+//@   ensures (n is ast.NodeTypeContainsAll) ==> (hardErr(partial#1(env, n.(ast.NodeTypeContainsAll).Left)) ? (err == partial#1(env, n.(ast.NodeTypeContainsAll).Left)) : (hardErr(partial#1(env, n.(ast.NodeTypeContainsAll).Right)) ? (err == partial#1(env, n.(ast.NodeTypeContainsAll).Right)) : (((partial#1(env, n.(ast.NodeTypeContainsAll).Left) == nil && (partial#0(env, n.(ast.NodeTypeContainsAll).Left) is ast.NodeValue)) && (partial#1(env, n.(ast.NodeTypeContainsAll).Right) == nil && (partial#0(env, n.(ast.NodeTypeContainsAll).Right) is ast.NodeValue))) ? pOutcome(r, err, ast.IsNode(mkstruct(ast.NodeTypeContainsAll, mkstruct(ast.BinaryNode, (errIs(partial#1(env, n.(ast.NodeTypeContainsAll).Left), errVariable) ? n.(ast.NodeTypeContainsAll).Left : partial#0(env, n.(ast.NodeTypeContainsAll).Left)), (errIs(partial#1(env, n.(ast.NodeTypeContainsAll).Right), errVariable) ? n.(ast.NodeTypeContainsAll).Right : partial#0(env, n.(ast.NodeTypeContainsAll).Right))))), ToEval#0(ast.IsNode(mkstruct(ast.NodeTypeContainsAll, mkstruct(ast.BinaryNode, partial#0(env, n.(ast.NodeTypeContainsAll).Left), partial#0(env, n.(ast.NodeTypeContainsAll).Right))))), env) : (err == nil && r == ast.IsNode(mkstruct(ast.NodeTypeContainsAll, mkstruct(ast.BinaryNode, (errIs(partial#1(env, n.(ast.NodeTypeContainsAll).Left), errVariable) ? n.(ast.NodeTypeContainsAll).Left : partial#0(env, n.(ast.NodeTypeContainsAll).Left)), (errIs(partial#1(env, n.(ast.NodeTypeContainsAll).Right), errVariable) ? n.(ast.NodeTypeContainsAll).Right : partial#0(env, n.(ast.NodeTypeContainsAll).Right)))))))))
+//@   ensures (n is ast.NodeTypeContainsAny) ==> (hardErr(partial#1(env, n.(ast.NodeTypeContainsAny).Left)) ? (err == partial#1(env, n.(ast.NodeTypeContainsAny).Left)) : (hardErr(partial#1(env, n.(ast.NodeTypeContainsAny).Right)) ? (err == partial#1(env, n.(ast.NodeTypeContainsAny).Right)) : (((partial#1(env, n.(ast.NodeTypeContainsAny).Left) == nil && (partial#0(env, n.(ast.NodeTypeContainsAny).Left) is ast.NodeValue)) && (partial#1(env, n.(ast.NodeTypeContainsAny).Right) == nil && (partial#0(env, n.(ast.NodeTypeContainsAny).Right) is ast.NodeValue))) ? pOutcome(r, err, ast.IsNode(mkstruct(ast.NodeTypeContainsAny, mkstruct(ast.BinaryNode, (errIs(partial#1(env, n.(ast.NodeTypeContainsAny).Left), errVariable) ? n.(ast.NodeTypeContainsAny).Left : partial#0(env, n.(ast.NodeTypeContainsAny).Left)), (errIs(partial#1(env, n.(ast.NodeTypeContainsAny).Right), errVariable) ? n.(ast.NodeTypeContainsAny).Right : partial#0(env, n.(ast.NodeTypeContainsAny).Right))))), ToEval#0(ast.IsNode(mkstruct(ast.NodeTypeContainsAny, mkstruct(ast.BinaryNode, partial#0(env, n.(ast.NodeTypeContainsAny).Left), partial#0(env, n.(ast.NodeTypeContainsAny).Right))))), env) : (err == nil && r == ast.IsNode(mkstruct(ast.NodeTypeContainsAny, mkstruct(ast.BinaryNode, (errIs(partial#1(env, n.(ast.NodeTypeContainsAny).Left), errVariable) ? n.(ast.NodeTypeContainsAny).Left : partial#0(env, n.(ast.NodeTypeContainsAny).Left)), (errIs(partial#1(env, n.(ast.NodeTypeContainsAny).Right), errVariable) ? n.(ast.NodeTypeContainsAny).Right : partial#0(env, n.(ast.NodeTypeContainsAny).Right)))))))))
+//@   ensures (n is ast.NodeTypeGetTag) ==> (hardErr(partial#1(env, n.(ast.NodeTypeGetTag).Left)) ? (err == partial#1(env, n.(ast.NodeTypeGetTag).Left)) : (hardErr(partial#1(env, n.(ast.NodeTypeGetTag).Right)) ? (err == partial#1(env, n.(ast.NodeTypeGetTag).Right)) : (((partial#1(env, n.(ast.NodeTypeGetTag).Left) == nil && (partial#0(env, n.(ast.NodeTypeGetTag).Left) is ast.NodeValue)) && (partial#1(env, n.(ast.NodeTypeGetTag).Right) == nil && (partial#0(env, n.(ast.NodeTypeGetTag).Right) is ast.NodeValue))) ? pOutcome(r, err, ast.IsNode(mkstruct(ast.NodeTypeGetTag, mkstruct(ast.BinaryNode, (errIs(partial#1(env, n.(ast.NodeTypeGetTag).Left), errVariable) ? n.(ast.NodeTypeGetTag).Left : partial#0(env, n.(ast.NodeTypeGetTag).Left)), (errIs(partial#1(env, n.(ast.NodeTypeGetTag).Right), errVariable) ? n.(ast.NodeTypeGetTag).Right : partial#0(env, n.(ast.NodeTypeGetTag).Right))))), ToEval#0(ast.IsNode(mkstruct(ast.NodeTypeGetTag, mkstruct(ast.BinaryNode, partial#0(env, n.(ast.NodeTypeGetTag).Left), partial#0(env, n.(ast.NodeTypeGetTag).Right))))), env) : (err == nil && r == ast.IsNode(mkstruct(ast.NodeTypeGetTag, mkstruct(ast.BinaryNode, (errIs(partial#1(env, n.(ast.NodeTypeGetTag).Left), errVariable) ? n.(ast.NodeTypeGetTag).Left : partial#0(env, n.(ast.NodeTypeGetTag).Left)), (errIs(partial#1(env, n.(ast.NodeTypeGetTag).Right), errVariable) ? n.(ast.NodeTypeGetTag).Right : partial#0(env, n.(ast.NodeTypeGetTag).Right)))))))))
+//@   ensures (n is ast.NodeTypeHasTag) ==> (hardErr(partial#1(env, n.(ast.NodeTypeHasTag).Left)) ? (err == partial#1(env, n.(ast.NodeTypeHasTag).Left)) : (hardErr(partial#1(env, n.(ast.NodeTypeHasTag).Right)) ? (err == partial#1(env, n.(ast.NodeTypeHasTag).Right)) : (((partial#1(env, n.(ast.NodeTypeHasTag).Left) == nil && (partial#0(env, n.(ast.NodeTypeHasTag).Left) is ast.NodeValue)) && (partial#1(env, n.(ast.NodeTypeHasTag).Right) == nil && (partial#0(env, n.(ast.NodeTypeHasTag).Right) is ast.NodeValue))) ? pOutcome(r, err, ast.IsNode(mkstruct(ast.NodeTypeHasTag, mkstruct(ast.BinaryNode, (errIs(partial#1(env, n.(ast.NodeTypeHasTag).Left), errVariable) ? n.(ast.NodeTypeHasTag).Left : partial#0(env, n.(ast.NodeTypeHasTag).Left)), (errIs(partial#1(env, n.(ast.NodeTypeHasTag).Right), errVariable) ? n.(ast.NodeTypeHasTag).Right : partial#0(env, n.(ast.NodeTypeHasTag).Right))))), ToEval#0(ast.IsNode(mkstruct(ast.NodeTypeHasTag, mkstruct(ast.BinaryNode, partial#0(env, n.(ast.NodeTypeHasTag).Left), partial#0(env, n.(ast.NodeTypeHasTag).Right))))), env) : (err == nil && r == ast.IsNode(mkstruct(ast.NodeTypeHasTag, mkstruct(ast.BinaryNode, (errIs(partial#1(env, n.(ast.NodeTypeHasTag).Left), errVariable) ? n.(ast.NodeTypeHasTag).Left : partial#0(env, n.(ast.NodeTypeHasTag).Left)), (errIs(partial#1(env, n.(ast.NodeTypeHasTag).Right), errVariable) ? n.(ast.NodeTypeHasTag).Right : partial#0(env, n.(ast.NodeTypeHasTag).Right)))))))))
+//@   ensures (n is ast.NodeTypeSub) ==> (hardErr(partial#1(env, n.(ast.NodeTypeSub).Left)) ? (err == partial#1(env, n.(ast.NodeTypeSub).Left)) : (hardErr(partial#1(env, n.(ast.NodeTypeSub).Right)) ? (err == partial#1(env, n.(ast.NodeTypeSub).Right)) : (((partial#1(env, n.(ast.NodeTypeSub).Left) == nil && (partial#0(env, n.(ast.NodeTypeSub).Left) is ast.NodeValue)) && (partial#1(env, n.(ast.NodeTypeSub).Right) == nil && (partial#0(env, n.(ast.NodeTypeSub).Right) is ast.NodeValue))) ? pOutcome(r, err, ast.IsNode(mkstruct(ast.NodeTypeSub, mkstruct(ast.BinaryNode, (errIs(partial#1(env, n.(ast.NodeTypeSub).Left), errVariable) ? n.(ast.NodeTypeSub).Left : partial#0(env, n.(ast.NodeTypeSub).Left)), (errIs(partial#1(env, n.(ast.NodeTypeSub).Right), errVariable) ? n.(ast.NodeTypeSub).Right : partial#0(env, n.(ast.NodeTypeSub).Right))), mkstruct(ast.AddNode))), ToEval#0(ast.IsNode(mkstruct(ast.NodeTypeSub, mkstruct(ast.BinaryNode, partial#0(env, n.(ast.NodeTypeSub).Left), partial#0(env, n.(ast.NodeTypeSub).Right)), mkstruct(ast.AddNode)))), env) : (err == nil && r == ast.IsNode(mkstruct(ast.NodeTypeSub, mkstruct(ast.BinaryNode, (errIs(partial#1(env, n.(ast.NodeTypeSub).Left), errVariable) ? n.(ast.NodeTypeSub).Left : partial#0(env, n.(ast.NodeTypeSub).Left)), (errIs(partial#1(env, n.(ast.NodeTypeSub).Right), errVariable) ? n.(ast.NodeTypeSub).Right : partial#0(env, n.(ast.NodeTypeSub).Right))), mkstruct(ast.AddNode)))))))
+//@   ensures (n is ast.NodeTypeAdd) ==> (hardErr(partial#1(env, n.(ast.NodeTypeAdd).Left)) ? (err == partial#1(env, n.(ast.NodeTypeAdd).Left)) : (hardErr(partial#1(env, n.(ast.NodeTypeAdd).Right)) ? (err == partial#1(env, n.(ast.NodeTypeAdd).Right)) : (((partial#1(env, n.(ast.NodeTypeAdd).Left) == nil && (partial#0(env, n.(ast.NodeTypeAdd).Left) is ast.NodeValue)) && (partial#1(env, n.(ast.NodeTypeAdd).Right) == nil && (partial#0(env, n.(ast.NodeTypeAdd).Right) is ast.NodeValue))) ? pOutcome(r, err, ast.IsNode(mkstruct(ast.NodeTypeAdd, mkstruct(ast.BinaryNode, (errIs(partial#1(env, n.(ast.NodeTypeAdd).Left), errVariable) ? n.(ast.NodeTypeAdd).Left : partial#0(env, n.(ast.NodeTypeAdd).Left)), (errIs(partial#1(env, n.(ast.NodeTypeAdd).Right), errVariable) ? n.(ast.NodeTypeAdd).Right : partial#0(env, n.(ast.NodeTypeAdd).Right))), mkstruct(ast.AddNode))), ToEval#0(ast.IsNode(mkstruct(ast.NodeTypeAdd, mkstruct(ast.BinaryNode, partial#0(env, n.(ast.NodeTypeAdd).Left), partial#0(env, n.(ast.NodeTypeAdd).Right)), mkstruct(ast.AddNode)))), env) : (err == nil && r == ast.IsNode(mkstruct(ast.NodeTypeAdd, mkstruct(ast.BinaryNode, (errIs(partial#1(env, n.(ast.NodeTypeAdd).Left), errVariable) ? n.(ast.NodeTypeAdd).Left : partial#0(env, n.(ast.NodeTypeAdd).Left)), (errIs(partial#1(env, n.(ast.NodeTypeAdd).Right), errVariable) ? n.(ast.NodeTypeAdd).Right : partial#0(env, n.(ast.NodeTypeAdd).Right))), mkstruct(ast.AddNode)))))))
+//@   ensures (n is ast.NodeTypeNegate) ==> (hardErr(partial#1(env, n.(ast.NodeTypeNegate).Arg)) ? (err == partial#1(env, n.(ast.NodeTypeNegate).Arg)) : ((partial#1(env, n.(ast.NodeTypeNegate).Arg) == nil && (partial#0(env, n.(ast.NodeTypeNegate).Arg) is ast.NodeValue)) ? pOutcome(r, err, ast.IsNode(mkstruct(ast.NodeTypeNegate, mkstruct(ast.UnaryNode, (errIs(partial#1(env, n.(ast.NodeTypeNegate).Arg), errVariable) ? n.(ast.NodeTypeNegate).Arg : partial#0(env, n.(ast.NodeTypeNegate).Arg))))), ToEval#0(ast.IsNode(mkstruct(ast.NodeTypeNegate, mkstruct(ast.UnaryNode, partial#0(env, n.(ast.NodeTypeNegate).Arg))))), env) : (err == nil && r == ast.IsNode(mkstruct(ast.NodeTypeNegate, mkstruct(ast.UnaryNode, (errIs(partial#1(env, n.(ast.NodeTypeNegate).Arg), errVariable) ? n.(ast.NodeTypeNegate).Arg : partial#0(env, n.(ast.NodeTypeNegate).Arg))))))))
+//@   ensures (n is ast.NodeTypeNot) ==> (hardErr(partial#1(env, n.(ast.NodeTypeNot).Arg)) ? (err == partial#1(env, n.(ast.NodeTypeNot).Arg)) : ((partial#1(env, n.(ast.NodeTypeNot).Arg) == nil && (partial#0(env, n.(ast.NodeTypeNot).Arg) is ast.NodeValue)) ? pOutcome(r, err, ast.IsNode(mkstruct(ast.NodeTypeNot, mkstruct(ast.UnaryNode, (errIs(partial#1(env, n.(ast.NodeTypeNot).Arg), errVariable) ? n.(ast.NodeTypeNot).Arg : partial#0(env, n.(ast.NodeTypeNot).Arg))))), ToEval#0(ast.IsNode(mkstruct(ast.NodeTypeNot, mkstruct(ast.UnaryNode, partial#0(env, n.(ast.NodeTypeNot).Arg))))), env) : (err == nil && r == ast.IsNode(mkstruct(ast.NodeTypeNot, mkstruct(ast.UnaryNode, (errIs(partial#1(env, n.(ast.NodeTypeNot).Arg), errVariable) ? n.(ast.NodeTypeNot).Arg : partial#0(env, n.(ast.NodeTypeNot).Arg))))))))
+//@   ensures (n is ast.NodeTypeIsEmpty) ==> (hardErr(partial#1(env, n.(ast.NodeTypeIsEmpty).Arg)) ? (err == partial#1(env, n.(ast.NodeTypeIsEmpty).Arg)) : ((partial#1(env, n.(ast.NodeTypeIsEmpty).Arg) == nil && (partial#0(env, n.(ast.NodeTypeIsEmpty).Arg) is ast.NodeValue)) ? pOutcome(r, err, ast.IsNode(mkstruct(ast.NodeTypeIsEmpty, mkstruct(ast.UnaryNode, (errIs(partial#1(env, n.(ast.NodeTypeIsEmpty).Arg), errVariable) ? n.(ast.NodeTypeIsEmpty).Arg : partial#0(env, n.(ast.NodeTypeIsEmpty).Arg))))), ToEval#0(ast.IsNode(mkstruct(ast.NodeTypeIsEmpty, mkstruct(ast.UnaryNode, partial#0(env, n.(ast.NodeTypeIsEmpty).Arg))))), env) : (err == nil && r == ast.IsNode(mkstruct(ast.NodeTypeIsEmpty, mkstruct(ast.UnaryNode, (errIs(partial#1(env, n.(ast.NodeTypeIsEmpty).Arg), errVariable) ? n.(ast.NodeTypeIsEmpty).Arg : partial#0(env, n.(ast.NodeTypeIsEmpty).Arg))))))))
+//@   ensures (n is ast.NodeTypeAccess) ==> (hardErr(partial#1(env, n.(ast.NodeTypeAccess).Arg)) ? (err == partial#1(env, n.(ast.NodeTypeAccess).Arg)) : ((partial#1(env, n.(ast.NodeTypeAccess).Arg) == nil && (partial#0(env, n.(ast.NodeTypeAccess).Arg) is ast.NodeValue)) ? pOutcome(r, err, ast.IsNode(mkstruct(ast.NodeTypeAccess, mkstruct(ast.StrOpNode, (errIs(partial#1(env, n.(ast.NodeTypeAccess).Arg), errVariable) ? n.(ast.NodeTypeAccess).Arg : partial#0(env, n.(ast.NodeTypeAccess).Arg)), n.(ast.NodeTypeAccess).Value))), ToEval#0(ast.IsNode(mkstruct(ast.NodeTypeAccess, mkstruct(ast.StrOpNode, partial#0(env, n.(ast.NodeTypeAccess).Arg), n.(ast.NodeTypeAccess).Value)))), env) : (err == nil && r == ast.IsNode(mkstruct(ast.NodeTypeAccess, mkstruct(ast.StrOpNode, (errIs(partial#1(env, n.(ast.NodeTypeAccess).Arg), errVariable) ? n.(ast.NodeTypeAccess).Arg : partial#0(env, n.(ast.NodeTypeAccess).Arg)), n.(ast.NodeTypeAccess).Value))))))
+//@   ensures (n is ast.NodeTypeLike) ==> (hardErr(partial#1(env, n.(ast.NodeTypeLike).Arg)) ? (err == partial#1(env, n.(ast.NodeTypeLike).Arg)) : ((partial#1(env, n.(ast.NodeTypeLike).Arg) == nil && (partial#0(env, n.(ast.NodeTypeLike).Arg) is ast.NodeValue)) ? pOutcome(r, err, ast.IsNode(mkstruct(ast.NodeTypeLike, (errIs(partial#1(env, n.(ast.NodeTypeLike).Arg), errVariable) ? n.(ast.NodeTypeLike).Arg : partial#0(env, n.(ast.NodeTypeLike).Arg)), n.(ast.NodeTypeLike).Value)), ToEval#0(ast.IsNode(mkstruct(ast.NodeTypeLike, partial#0(env, n.(ast.NodeTypeLike).Arg), n.(ast.NodeTypeLike).Value))), env) : (err == nil && r == ast.IsNode(mkstruct(ast.NodeTypeLike, (errIs(partial#1(env, n.(ast.NodeTypeLike).Arg), errVariable) ? n.(ast.NodeTypeLike).Arg : partial#0(env, n.(ast.NodeTypeLike).Arg)), n.(ast.NodeTypeLike).Value)))))
+//@   ensures (n is ast.NodeTypeIs) ==> (hardErr(partial#1(env, n.(ast.NodeTypeIs).Left)) ? (err == partial#1(env, n.(ast.NodeTypeIs).Left)) : ((partial#1(env, n.(ast.NodeTypeIs).Left) == nil && (partial#0(env, n.(ast.NodeTypeIs).Left) is ast.NodeValue)) ? pOutcome(r, err, ast.IsNode(mkstruct(ast.NodeTypeIs, (errIs(partial#1(env, n.(ast.NodeTypeIs).Left), errVariable) ? n.(ast.NodeTypeIs).Left : partial#0(env, n.(ast.NodeTypeIs).Left)), n.(ast.NodeTypeIs).EntityType)), ToEval#0(ast.IsNode(mkstruct(ast.NodeTypeIs, partial#0(env, n.(ast.NodeTypeIs).Left), n.(ast.NodeTypeIs).EntityType))), env) : (err == nil && r == ast.IsNode(mkstruct(ast.NodeTypeIs, (errIs(partial#1(env, n.(ast.NodeTypeIs).Left), errVariable) ? n.(ast.NodeTypeIs).Left : partial#0(env, n.(ast.NodeTypeIs).Left)), n.(ast.NodeTypeIs).EntityType)))))
+//@   ensures (n is ast.NodeTypeIsIn) ==> (hardErr(partial#1(env, n.(ast.NodeTypeIsIn).Left)) ? (err == partial#1(env, n.(ast.NodeTypeIsIn).Left)) : (hardErr(partial#1(env, n.(ast.NodeTypeIsIn).Entity)) ? (err == partial#1(env, n.(ast.NodeTypeIsIn).Entity)) : (((partial#1(env, n.(ast.NodeTypeIsIn).Left) == nil && (partial#0(env, n.(ast.NodeTypeIsIn).Left) is ast.NodeValue)) && (partial#1(env, n.(ast.NodeTypeIsIn).Entity) == nil && (partial#0(env, n.(ast.NodeTypeIsIn).Entity) is ast.NodeValue))) ? pOutcome(r, err, ast.IsNode(mkstruct(ast.NodeTypeIsIn, mkstruct(ast.NodeTypeIs, (errIs(partial#1(env, n.(ast.NodeTypeIsIn).Left), errVariable) ? n.(ast.NodeTypeIsIn).Left : partial#0(env, n.(ast.NodeTypeIsIn).Left)), n.(ast.NodeTypeIsIn).EntityType), (errIs(partial#1(env, n.(ast.NodeTypeIsIn).Entity), errVariable) ? n.(ast.NodeTypeIsIn).Entity : partial#0(env, n.(ast.NodeTypeIsIn).Entity)))), ToEval#0(ast.IsNode(mkstruct(ast.NodeTypeIsIn, mkstruct(ast.NodeTypeIs, partial#0(env, n.(ast.NodeTypeIsIn).Left), n.(ast.NodeTypeIsIn).EntityType), partial#0(env, n.(ast.NodeTypeIsIn).Entity)))), env) : (err == nil && r == ast.IsNode(mkstruct(ast.NodeTypeIsIn, mkstruct(ast.NodeTypeIs, (errIs(partial#1(env, n.(ast.NodeTypeIsIn).Left), errVariable) ? n.(ast.NodeTypeIsIn).Left : partial#0(env, n.(ast.NodeTypeIsIn).Left)), n.(ast.NodeTypeIsIn).EntityType), (errIs(partial#1(env, n.(ast.NodeTypeIsIn).Entity), errVariable) ? n.(ast.NodeTypeIsIn).Entity : partial#0(env, n.(ast.NodeTypeIsIn).Entity))))))))
 //@   ensures (n is ast.NodeValue) ==> (err == nil && r == n)
+//@   ensures (n is ast.NodeTypeAnd) ==> (r == partialAnd#0(env, n.(ast.NodeTypeAnd)) && err == partialAnd#1(env, n.(ast.NodeTypeAnd)))
+//@   ensures (n is ast.NodeTypeOr) ==> (r == partialOr#0(env, n.(ast.NodeTypeOr)) && err == partialOr#1(env, n.(ast.NodeTypeOr)))
+//@   ensures (n is ast.NodeTypeIfThenElse) ==> (r == partialIfThenElse#0(env, n.(ast.NodeTypeIfThenElse)) && err == partialIfThenElse#1(env, n.(ast.NodeTypeIfThenElse)))
 //@   ensures (n is ast.NodeTypeVariable && (n.(ast.NodeTypeVariable).Name == "principal" || n.(ast.NodeTypeVariable).Name == "action" || n.(ast.NodeTypeVariable).Name == "resource" || n.(ast.NodeTypeVariable).Name == "context")) ==> pOutcome(r, err, n, ToEval#0(n), env)
 //@   loop 1
 //@     invariant len(args) == len(values) && !isnil(args)
@@ -1085,3 +1201,34 @@ package eval
 //@     invariant len(el) == len(nodes) && !isnil(el)
 //@   loop 5
 //@     invariant len(el) == len(values) && !isnil(el)
+
+// A literal in the residual is fully known: the operator was evaluated on known operands over
+// a known entity store. One lemma per operator; the induction over the expression is applied
+// outside the solver. For a request variable the lemma holds only if that request part is
+// known, a top-level unknown or ignored (see KNOWN_FINDINGS: an unknown nested inside a
+// composite request part).
+//@ spec func knownIH(env Env, c ast.IsNode) bool = (pE(env, c) == nil && (pN(env, c) is ast.NodeValue)) ==> known(pN(env, c).(ast.NodeValue).Value)
+//@ lemma C06 partial_known_In dispatch Evaler.Eval@inEval@literalEval@errorEval: forall n ast.IsNode, env Env :: ((n is ast.NodeTypeIn) && storeKnown(env) && litKnown(n) && knownIH(env, n.(ast.NodeTypeIn).Left) && knownIH(env, n.(ast.NodeTypeIn).Right) && pE(env, n) == nil && (pN(env, n) is ast.NodeValue)) ==> known(pN(env, n).(ast.NodeValue).Value)
+//@ lemma C06 partial_known_Equals dispatch Evaler.Eval@equalEval@literalEval@errorEval: forall n ast.IsNode, env Env :: ((n is ast.NodeTypeEquals) && storeKnown(env) && litKnown(n) && knownIH(env, n.(ast.NodeTypeEquals).Left) && knownIH(env, n.(ast.NodeTypeEquals).Right) && pE(env, n) == nil && (pN(env, n) is ast.NodeValue)) ==> known(pN(env, n).(ast.NodeValue).Value)
+//@ lemma C06 partial_known_NotEquals dispatch Evaler.Eval@notEqualEval@literalEval@errorEval: forall n ast.IsNode, env Env :: ((n is ast.NodeTypeNotEquals) && storeKnown(env) && litKnown(n) && knownIH(env, n.(ast.NodeTypeNotEquals).Left) && knownIH(env, n.(ast.NodeTypeNotEquals).Right) && pE(env, n) == nil && (pN(env, n) is ast.NodeValue)) ==> known(pN(env, n).(ast.NodeValue).Value)
+//@ lemma C06 partial_known_GreaterThan dispatch Evaler.Eval@comparableValueGreaterThanEval@literalEval@errorEval: forall n ast.IsNode, env Env :: ((n is ast.NodeTypeGreaterThan) && storeKnown(env) && litKnown(n) && knownIH(env, n.(ast.NodeTypeGreaterThan).Left) && knownIH(env, n.(ast.NodeTypeGreaterThan).Right) && pE(env, n) == nil && (pN(env, n) is ast.NodeValue)) ==> known(pN(env, n).(ast.NodeValue).Value)
+//@ lemma C06 partial_known_GreaterThanOrEqual dispatch Evaler.Eval@comparableValueGreaterThanOrEqualEval@literalEval@errorEval: forall n ast.IsNode, env Env :: ((n is ast.NodeTypeGreaterThanOrEqual) && storeKnown(env) && litKnown(n) && knownIH(env, n.(ast.NodeTypeGreaterThanOrEqual).Left) && knownIH(env, n.(ast.NodeTypeGreaterThanOrEqual).Right) && pE(env, n) == nil && (pN(env, n) is ast.NodeValue)) ==> known(pN(env, n).(ast.NodeValue).Value)
+//@ lemma C06 partial_known_LessThan dispatch Evaler.Eval@comparableValueLessThanEval@literalEval@errorEval: forall n ast.IsNode, env Env :: ((n is ast.NodeTypeLessThan) && storeKnown(env) && litKnown(n) && knownIH(env, n.(ast.NodeTypeLessThan).Left) && knownIH(env, n.(ast.NodeTypeLessThan).Right) && pE(env, n) == nil && (pN(env, n) is ast.NodeValue)) ==> known(pN(env, n).(ast.NodeValue).Value)
+//@ lemma C06 partial_known_LessThanOrEqual dispatch Evaler.Eval@comparableValueLessThanOrEqualEval@literalEval@errorEval: forall n ast.IsNode, env Env :: ((n is ast.NodeTypeLessThanOrEqual) && storeKnown(env) && litKnown(n) && knownIH(env, n.(ast.NodeTypeLessThanOrEqual).Left) && knownIH(env, n.(ast.NodeTypeLessThanOrEqual).Right) && pE(env, n) == nil && (pN(env, n) is ast.NodeValue)) ==> known(pN(env, n).(ast.NodeValue).Value)
+//@ lemma C06 partial_known_Mult dispatch Evaler.Eval@multiplyEval@literalEval@errorEval: forall n ast.IsNode, env Env :: ((n is ast.NodeTypeMult) && storeKnown(env) && litKnown(n) && knownIH(env, n.(ast.NodeTypeMult).Left) && knownIH(env, n.(ast.NodeTypeMult).Right) && pE(env, n) == nil && (pN(env, n) is ast.NodeValue)) ==> known(pN(env, n).(ast.NodeValue).Value)
+//@ lemma C06 partial_known_Contains dispatch Evaler.Eval@containsEval@literalEval@errorEval: forall n ast.IsNode, env Env :: ((n is ast.NodeTypeContains) && storeKnown(env) && litKnown(n) && knownIH(env, n.(ast.NodeTypeContains).Left) && knownIH(env, n.(ast.NodeTypeContains).Right) && pE(env, n) == nil && (pN(env, n) is ast.NodeValue)) ==> known(pN(env, n).(ast.NodeValue).Value)
+//@ lemma C06 partial_known_ContainsAll dispatch Evaler.Eval@containsAllEval@literalEval@errorEval: forall n ast.IsNode, env Env :: ((n is ast.NodeTypeContainsAll) && storeKnown(env) && litKnown(n) && knownIH(env, n.(ast.NodeTypeContainsAll).Left) && knownIH(env, n.(ast.NodeTypeContainsAll).Right) && pE(env, n) == nil && (pN(env, n) is ast.NodeValue)) ==> known(pN(env, n).(ast.NodeValue).Value)
+//@ lemma C06 partial_known_ContainsAny dispatch Evaler.Eval@containsAnyEval@literalEval@errorEval: forall n ast.IsNode, env Env :: ((n is ast.NodeTypeContainsAny) && storeKnown(env) && litKnown(n) && knownIH(env, n.(ast.NodeTypeContainsAny).Left) && knownIH(env, n.(ast.NodeTypeContainsAny).Right) && pE(env, n) == nil && (pN(env, n) is ast.NodeValue)) ==> known(pN(env, n).(ast.NodeValue).Value)
+//@ lemma C06 partial_known_GetTag dispatch Evaler.Eval@getTagEval@literalEval@errorEval: forall n ast.IsNode, env Env :: ((n is ast.NodeTypeGetTag) && storeKnown(env) && litKnown(n) && knownIH(env, n.(ast.NodeTypeGetTag).Left) && knownIH(env, n.(ast.NodeTypeGetTag).Right) && pE(env, n) == nil && (pN(env, n) is ast.NodeValue)) ==> known(pN(env, n).(ast.NodeValue).Value)
+//@ lemma C06 partial_known_HasTag dispatch Evaler.Eval@hasTagEval@literalEval@errorEval: forall n ast.IsNode, env Env :: ((n is ast.NodeTypeHasTag) && storeKnown(env) && litKnown(n) && knownIH(env, n.(ast.NodeTypeHasTag).Left) && knownIH(env, n.(ast.NodeTypeHasTag).Right) && pE(env, n) == nil && (pN(env, n) is ast.NodeValue)) ==> known(pN(env, n).(ast.NodeValue).Value)
+//@ lemma C06 partial_known_Sub dispatch Evaler.Eval@subtractEval@literalEval@errorEval: forall n ast.IsNode, env Env :: ((n is ast.NodeTypeSub) && storeKnown(env) && litKnown(n) && knownIH(env, n.(ast.NodeTypeSub).Left) && knownIH(env, n.(ast.NodeTypeSub).Right) && pE(env, n) == nil && (pN(env, n) is ast.NodeValue)) ==> known(pN(env, n).(ast.NodeValue).Value)
+//@ lemma C06 partial_known_Add dispatch Evaler.Eval@addEval@literalEval@errorEval: forall n ast.IsNode, env Env :: ((n is ast.NodeTypeAdd) && storeKnown(env) && litKnown(n) && knownIH(env, n.(ast.NodeTypeAdd).Left) && knownIH(env, n.(ast.NodeTypeAdd).Right) && pE(env, n) == nil && (pN(env, n) is ast.NodeValue)) ==> known(pN(env, n).(ast.NodeValue).Value)
+//@ lemma C06 partial_known_Negate dispatch Evaler.Eval@negateEval@literalEval@errorEval: forall n ast.IsNode, env Env :: ((n is ast.NodeTypeNegate) && storeKnown(env) && litKnown(n) && knownIH(env, n.(ast.NodeTypeNegate).Arg) && pE(env, n) == nil && (pN(env, n) is ast.NodeValue)) ==> known(pN(env, n).(ast.NodeValue).Value)
+//@ lemma C06 partial_known_Not dispatch Evaler.Eval@notEval@literalEval@errorEval: forall n ast.IsNode, env Env :: ((n is ast.NodeTypeNot) && storeKnown(env) && litKnown(n) && knownIH(env, n.(ast.NodeTypeNot).Arg) && pE(env, n) == nil && (pN(env, n) is ast.NodeValue)) ==> known(pN(env, n).(ast.NodeValue).Value)
+//@ lemma C06 partial_known_IsEmpty dispatch Evaler.Eval@isEmptyEval@literalEval@errorEval: forall n ast.IsNode, env Env :: ((n is ast.NodeTypeIsEmpty) && storeKnown(env) && litKnown(n) && knownIH(env, n.(ast.NodeTypeIsEmpty).Arg) && pE(env, n) == nil && (pN(env, n) is ast.NodeValue)) ==> known(pN(env, n).(ast.NodeValue).Value)
+//@ lemma C06 partial_known_Access dispatch Evaler.Eval@attributeAccessEval@literalEval@errorEval: forall n ast.IsNode, env Env :: ((n is ast.NodeTypeAccess) && storeKnown(env) && litKnown(n) && knownIH(env, n.(ast.NodeTypeAccess).Arg) && pE(env, n) == nil && (pN(env, n) is ast.NodeValue)) ==> known(pN(env, n).(ast.NodeValue).Value)
+//@ lemma C06 partial_known_Like dispatch Evaler.Eval@likeEval@literalEval@errorEval: forall n ast.IsNode, env Env :: ((n is ast.NodeTypeLike) && storeKnown(env) && litKnown(n) && knownIH(env, n.(ast.NodeTypeLike).Arg) && pE(env, n) == nil && (pN(env, n) is ast.NodeValue)) ==> known(pN(env, n).(ast.NodeValue).Value)
+//@ lemma C06 partial_known_Is dispatch Evaler.Eval@isEval@literalEval@errorEval: forall n ast.IsNode, env Env :: ((n is ast.NodeTypeIs) && storeKnown(env) && litKnown(n) && knownIH(env, n.(ast.NodeTypeIs).Left) && pE(env, n) == nil && (pN(env, n) is ast.NodeValue)) ==> known(pN(env, n).(ast.NodeValue).Value)
+//@ lemma C06 partial_known_IsIn dispatch Evaler.Eval@isInEval@literalEval@errorEval: forall n ast.IsNode, env Env :: ((n is ast.NodeTypeIsIn) && storeKnown(env) && litKnown(n) && knownIH(env, n.(ast.NodeTypeIsIn).Left) && knownIH(env, n.(ast.NodeTypeIsIn).Entity) && pE(env, n) == nil && (pN(env, n) is ast.NodeValue)) ==> known(pN(env, n).(ast.NodeValue).Value)
+//@ lemma C06 partial_known_Variable dispatch Evaler.Eval@variableEval: forall n ast.IsNode, env Env :: ((n is ast.NodeTypeVariable) && (n.(ast.NodeTypeVariable).Name == "principal" || n.(ast.NodeTypeVariable).Name == "action" || n.(ast.NodeTypeVariable).Name == "resource" || n.(ast.NodeTypeVariable).Name == "context") && pE(env, n) == nil && (pN(env, n) is ast.NodeValue)) ==> known(pN(env, n).(ast.NodeValue).Value)
+//@ lemma C06 partial_known_Value: forall n ast.IsNode, env Env :: ((n is ast.NodeValue) && litKnown(n) && pE(env, n) == nil && (pN(env, n) is ast.NodeValue)) ==> known(pN(env, n).(ast.NodeValue).Value)
